@@ -3,12 +3,16 @@ C15n (numerical layer) — `log2` with the property's floor, `ln_1p` (under cons
 -/
 import TFV.Lemmas.Log1pBound
 import TFV.Properties.C15m
+import TFV.Properties.C14f
+import TFV.Properties.C15
+import TFV.Properties.C15p
+import Mathlib.Analysis.Complex.ExponentialBounds
 
 set_option exponentiation.threshold 4000
 
 namespace C15n
 
-open F64 TwoFloat ConstBounds ExpBound
+open F64 TwoFloat ConstBounds ExpBound Exp2Bound Log1pBound
 
 /-- exact real value `hi + lo` of a pair -/
 noncomputable abbrev val (t : TwoFloat) : ℝ := ExpBound.rv t
@@ -38,5 +42,1744 @@ theorem log2_bound (x : TwoFloat) (hv : x.Valid) (hw : x.WF)
     linarith
   obtain ⟨n1, n2⟩ := abs_le.1 hnear2
   exact Log1pBound.log2_floor_arith (abs_le.2 ⟨by linarith, by linarith⟩)
+
+
+/-- **Property C15, accuracy of `log2` — the clause in full**: for every valid `x` with high word in `[2^-1000, 2^960]`,
+`|log2(x) − log₂ v| ≤ 2^-101·|log₂ v| + 2^-92`.  (Uses `Log1pBound.exp2_bound_wide`: `exp2` within `5640u²` on
+`[−961, 1001]`.) -/
+theorem log2_bound_full (x : TwoFloat) (hv : x.Valid) (hw : x.WF)
+    (hlo : 1 / 2 ^ 1000 ≤ fval x.hi) (hhi : fval x.hi ≤ 2 ^ 960) :
+    (TwoFloat.log2 x).Valid ∧
+    |val (TwoFloat.log2 x) - Real.log (val x) / Real.log 2|
+      ≤ 1 / 2 ^ 101 * |Real.log (val x) / Real.log 2| + 1 / 2 ^ 92 := by
+  have hhpos : 0 < fval x.hi := lt_of_lt_of_le (by positivity) hlo
+  obtain ⟨h1, h2⟩ := Log1pBound.log2_bound_ofW Log1pBound.exp2_accW (by positivity) (by norm_num) (η0 := 1 / 2 ^ 24)
+    (by positivity) (by norm_num) x hv hw hlo hhi (C15m.seed_ok hv.1 hw.1 hhpos)
+  refine ⟨h1.1, le_trans h2 ?_⟩
+  obtain ⟨hpos, hnear, _⟩ := LnBound.log_rv_near_hi hv hhpos
+  obtain ⟨hc1, hc2⟩ := Log2Bound.log_two_range
+  have hc0 : 0 < Real.log 2 := by linarith
+  have g1 : -1000 ≤ Real.log (fval x.hi) / Real.log 2 := by
+    have := Real.log_le_log (by positivity) hlo
+    rw [one_div, Real.log_inv, Real.log_pow] at this
+    rw [le_div_iff₀ hc0]
+    push_cast at this
+    linarith
+  have g2 : Real.log (fval x.hi) / Real.log 2 ≤ 960 := by
+    have := Real.log_le_log hhpos hhi
+    rw [Real.log_pow] at this
+    rw [div_le_iff₀ hc0]
+    push_cast at this
+    linarith
+  have hnear2 : |Real.log (val x) / Real.log 2 - Real.log (fval x.hi) / Real.log 2| ≤ 1 := by
+    rw [← sub_div, abs_div, abs_of_pos hc0, div_le_iff₀ hc0]
+    refine le_trans hnear ?_
+    have : (1 : ℝ) / 2 ^ 52 ≤ 1 * (693 / 1000) := by norm_num
+    linarith
+  obtain ⟨n1, n2⟩ := abs_le.1 hnear2
+  exact Log1pBound.log2_floor_arithW (abs_le.2 ⟨by linarith, by linarith⟩)
+
+/-! ## `ln_1p` -/
+
+/-! ### 1. `G ≥ |e^x − 1|/e^x` in the three regimes -/
+
+theorem g_abs {x : ℝ} (h : |x| ≤ 1) : |Real.exp x - 1| ≤ |x| * (1 + |x|) * Real.exp x := by
+  have hA := Real.exp_pos x
+  have h1 : |-x| ≤ 1 := by rwa [abs_neg]
+  have h2 := Real.abs_exp_sub_one_sub_id_le h1
+  have e : Real.exp x - 1 = -(Real.exp x * (Real.exp (-x) - 1)) := by
+    rw [mul_sub, ← Real.exp_add]; simp
+  rw [e, abs_neg, abs_mul, abs_of_pos hA, mul_comm]
+  apply mul_le_mul_of_nonneg_right _ hA.le
+  have h3 := abs_sub_abs_le_abs_sub (Real.exp (-x) - 1) (-x)
+  rw [abs_neg] at h3
+  have e2 : (-x) ^ 2 = |x| * |x| := by rw [neg_sq, ← sq_abs, sq]
+  rw [e2] at h2
+  have e3 : |x| * (1 + |x|) = |x| + |x| * |x| := by ring
+  rw [e3]; linarith
+
+theorem g_pos_mid {x : ℝ} (h0 : 0 ≤ x) (h1 : x ≤ 9 / 10) :
+    |Real.exp x - 1| ≤ x * (1 - 3 / 10 * x) * Real.exp x := by
+  have hA := Real.exp_pos x
+  have hb := Real.exp_bound (x := -x) (by rw [abs_neg, abs_of_nonneg h0]; linarith) (n := 3) (by norm_num)
+  simp only [Finset.sum_range_succ, Finset.sum_range_zero, Nat.factorial, abs_neg, abs_of_nonneg h0] at hb
+  norm_num at hb
+  have hlow := (abs_le.1 hb).1
+  have hge : 1 ≤ Real.exp x := by have := Real.add_one_le_exp x; linarith
+  rw [abs_of_nonneg (by linarith)]
+  have e : Real.exp x - 1 = Real.exp x * (1 - Real.exp (-x)) := by
+    rw [mul_sub, ← Real.exp_add]; simp
+  rw [e, mul_comm]
+  apply mul_le_mul_of_nonneg_right _ hA.le
+  nlinarith [mul_nonneg h0 h0, mul_nonneg (mul_nonneg h0 h0) h0]
+
+theorem mhLo_ge : (6065 : ℚ) / 10000 ≤ LnBound.mhLo := by decide +kernel
+theorem mhHi_le : LnBound.mhHi ≤ (6066 : ℚ) / 10000 := by decide +kernel
+
+theorem g_outer {x : ℝ} (h : 27 / 50 ≤ x) : |Real.exp x - 1| ≤ 9 / 10 * x * Real.exp x := by
+  have hA := Real.exp_pos x
+  have hge : 1 ≤ Real.exp x := by have := Real.add_one_le_exp x; linarith
+  rw [abs_of_nonneg (by linarith)]
+  have e : Real.exp x - 1 = Real.exp x * (1 - Real.exp (-x)) := by
+    rw [mul_sub, ← Real.exp_add]; simp
+  rw [e, mul_comm]
+  apply mul_le_mul_of_nonneg_right _ hA.le
+  by_cases hx : x ≤ 3 / 2
+  · obtain ⟨c1, c2⟩ := LnBound.exp_neg_half_encl
+    have c1' : (6065 : ℝ) / 10000 ≤ Real.exp (-1 / 2) := by
+      have := (Rat.cast_le (K := ℝ)).2 mhLo_ge
+      push_cast at this; linarith
+    have c2' : Real.exp (-1 / 2) ≤ 6066 / 10000 := by
+      have := (Rat.cast_le (K := ℝ)).2 mhHi_le
+      push_cast at this; linarith
+    have ht := Real.add_one_le_exp (-(x - 1 / 2))
+    have hsplit : Real.exp (-x) = Real.exp (-1 / 2) * Real.exp (-(x - 1 / 2)) := by
+      rw [← Real.exp_add]; congr 1; ring
+    have hc0 := Real.exp_pos (-1 / 2)
+    have : Real.exp (-1 / 2) * (-(x - 1 / 2) + 1) ≤ Real.exp (-x) := by
+      rw [hsplit]; exact mul_le_mul_of_nonneg_left ht hc0.le
+    nlinarith
+  · have := Real.exp_pos (-x)
+    linarith [not_le.1 hx]
+
+theorem g_neg {A : ℝ} (hA : 1 / 2 ^ 17 ≤ A) : |A - 1| ≤ 2 ^ 18 * A := by
+  have hA0 : 0 < A := lt_of_lt_of_le (by positivity) hA
+  rw [abs_le]
+  constructor <;> nlinarith
+
+/-! ### 2. the accuracy of `exp_m1` in the form used by the Newton step -/
+
+/-- accuracy `dM` of `exp_m1` at `x` -/
+def Em1 (x : TwoFloat) (dM : ℝ) : Prop :=
+  VW (TwoFloat.exp_m1 x) ∧ |val (TwoFloat.exp_m1 x) - (Real.exp (val x) - 1)| ≤ dM * |Real.exp (val x) - 1|
+
+theorem exp_m1_WF (x : TwoFloat) : (TwoFloat.exp_m1 x).WF := by
+  unfold TwoFloat.exp_m1
+  split_ifs
+  · exact PF.sub_tf_WF _ _
+  · exact PF.mul_tt_WF _ _
+  · exact PF.mul_tt_WF _ _
+
+/-- the Taylor branch for `|x| ≤ 2^-7` (`C14f.exp_m1_bound_small_54_partial` is stated for `|x| ≤ 2^-8`; the proof is the
+same — the Horner analysis `ExpBound.horner_inv` covers `|x| ≤ 1/128`): relative error `54u²` -/
+theorem em1_small128 (x : TwoFloat) (hv : x.Valid) (hw : x.WF) (h8 : |val x| ≤ 1 / 2 ^ 7)
+    (hlo : val x = 0 ∨ 1 / 2 ^ 950 ≤ |val x|) :
+    VW (TwoFloat.exp_m1 x) ∧
+    |val (TwoFloat.exp_m1 x) - (Real.exp (val x) - 1)| ≤ 54 / 2 ^ 106 * |Real.exp (val x) - 1| := by
+  have hU : (0 : ℝ) < 2 ^ 1074 := by positivity
+  change |rv x| ≤ 1 / 2 ^ 7 at h8
+  change rv x = 0 ∨ 1 / 2 ^ 950 ≤ |rv x| at hlo
+  show VW (TwoFloat.exp_m1 x) ∧
+    |rv (TwoFloat.exp_m1 x) - (Real.exp (rv x) - 1)| ≤ 54 / 2 ^ 106 * |Real.exp (rv x) - 1|
+  have hVabs : |x.V| ≤ 2 ^ 1067 := by
+    have := V_abs_le_of_rv (t := x) (k := 0) (le_trans h8 (by norm_num))
+    have h' : ((|x.V| : ℤ) : ℝ) ≤ 2 ^ 1067 := by
+      have h9 := h8
+      show ((|x.V| : ℤ) : ℝ) ≤ 2 ^ 1067
+      rw [rv_abs, div_le_iff₀ hU] at h9
+      calc ((|x.V| : ℤ) : ℝ) ≤ 1 / 2 ^ 7 * 2 ^ 1074 := h9
+        _ = 2 ^ 1067 := by norm_num
+    exact_mod_cast h'
+  obtain ⟨v1, v2⟩ := abs_le.1 hVabs
+  have hsw : ¬ (((ROrd.isLt (base.impl_PartialOrd_TwoFloat_for_TwoFloat.partial_cmp x (C14f.negf consts.LN_2))) ||
+      (ROrd.isGt (base.impl_PartialOrd_TwoFloat_for_TwoFloat.partial_cmp x explog.LN_FRAC_3_2))) = true) := by
+    rw [C14f.exp_m1_switch x hv hw]
+    have a1 := C14f.negLN2_facts.2.2
+    have a2 := C14f.LN32_facts.2.2
+    have e1 : (2 : ℤ) ^ 1073 = 64 * 2 ^ 1067 := by norm_num
+    have e2 : (2 : ℤ) ^ 1072 = 32 * 2 ^ 1067 := by norm_num
+    have hp : (0 : ℤ) < 2 ^ 1067 := by positivity
+    rw [e1] at a1; rw [e2] at a2
+    generalize (2 : ℤ) ^ 1067 = T at *
+    omega
+  unfold TwoFloat.exp_m1
+  rw [if_neg hsw]
+  dsimp only
+  rw [polyFold_eq]
+  obtain ⟨avw, harv⟩ := abs_rv' ⟨hv, hw⟩
+  obtain ⟨c1, c2, -⟩ := abs_cases hv
+  have h128 : |rv (TwoFloat.abs x)| ≤ 1 / 128 := by
+    rw [harv, _root_.abs_abs]; exact le_trans h8 (by norm_num)
+  have hrvw := C14f.r_vw avw h128
+  rcases lt_trichotomy x.V 0 with hneg | hzero | hpos
+  · -- x < 0
+    rw [if_pos ((C14f.lt_zero_switch x hv).2 hneg)]
+    have hxneg : rv x < 0 := div_neg_of_neg_of_pos (by exact_mod_cast hneg) hU
+    have hxabs : |rv x| = -rv x := abs_of_neg hxneg
+    set t := rv (TwoFloat.abs x) with htdef
+    have ht : t = -rv x := by rw [harv, hxabs]
+    have ht0 : 0 < t := by rw [ht]; linarith
+    have ht128 : t ≤ 1 / 128 := by
+      have := h128; rw [abs_of_pos ht0] at this; exact this
+    have hlo' : 1 / 2 ^ 950 ≤ t := by
+      rcases hlo with h | h
+      · exfalso; linarith
+      · rw [ht, ← hxabs]; exact h
+    obtain ⟨wvw, hw1⟩ := expm1_kernel avw ⟨hv, hw⟩ (by rw [hxabs, ← ht]) ht128 hlo'
+    generalize arithmetic.impl_Mul_TwoFloat_for_TwoFloat.mul x (arithmetic.impl_Add_f64_for_TwoFloat.add
+      (arithmetic.impl_Mul_TwoFloat_for_TwoFloat.mul (TwoFloat.abs x) (hp (TwoFloat.abs x) 12))
+      (f64lit 0x3ff0000000000000)) = w at *
+    rw [← htdef] at hw1
+    obtain ⟨tay, tge⟩ := C14f.taylor_pos ht0 ht128
+    set A := Real.exp t - 1 with hA
+    have hA0 : 0 < A := by linarith
+    -- -w ≈ A
+    have hwA : |(-rv w) - A| ≤ 931 / 100 / 2 ^ 106 * A := by
+      have e : rv x * (t * PR t 12 + 1) = -(t * (t * PR t 12 + 1)) := by rw [ht]; ring
+      rw [e, hxabs, ← ht] at hw1
+      have h1 := abs_add_le (-(rv w - -(t * (t * PR t 12 + 1)))) (t * (t * PR t 12 + 1) - A)
+      rw [abs_neg, show -(rv w - -(t * (t * PR t 12 + 1))) + (t * (t * PR t 12 + 1) - A) = -rv w - A by ring] at h1
+      have h2 : (93 : ℝ) / 10 / 2 ^ 106 * t ≤ 93 / 10 / 2 ^ 106 * A := mul_le_mul_of_nonneg_left tge (by positivity)
+      have e2 : (93 : ℝ) / 10 / 2 ^ 106 * A + 1 / 100 / 2 ^ 106 * A = 931 / 100 / 2 ^ 106 * A := by ring
+      linarith
+    -- exp x
+    obtain ⟨Evw, hE⟩ := exp_bound_37 x hv hw (by linarith) (by linarith)
+    have hB0 := Real.exp_pos (rv x)
+    have hBr : 99 / 100 ≤ Real.exp (rv x) ∧ Real.exp (rv x) ≤ 1 := by
+      constructor
+      · have := Real.add_one_le_exp (rv x); linarith
+      · rw [← Real.exp_zero]; exact Real.exp_le_exp.2 hxneg.le
+    have hAle : A ≤ 2 * t := by
+      have := Real.abs_exp_sub_one_le (x := t) (by rw [abs_of_pos ht0]; linarith)
+      rw [abs_of_pos ht0] at this
+      exact (abs_le.1 this).2
+    -- the final product
+    have hwabs : 99 / 100 * A ≤ |rv w| ∧ |rv w| ≤ 101 / 100 * A := by
+      have h3 := abs_sub_abs_le_abs_sub (-rv w) A
+      have h4 := abs_sub_abs_le_abs_sub A (-rv w)
+      rw [abs_sub_comm A] at h4
+      rw [abs_neg, abs_of_pos hA0] at h3 h4
+      have : (931 : ℝ) / 100 / 2 ^ 106 * A ≤ 1 / 100 * A := mul_le_mul_of_nonneg_right (by norm_num) hA0.le
+      constructor <;> linarith
+    have hEabs : 98 / 100 ≤ |rv (TwoFloat.exp x)| ∧ |rv (TwoFloat.exp x)| ≤ 101 / 100 := by
+      have h3 := abs_sub_abs_le_abs_sub (rv (TwoFloat.exp x)) (Real.exp (rv x))
+      have h4 := abs_sub_abs_le_abs_sub (Real.exp (rv x)) (rv (TwoFloat.exp x))
+      rw [abs_sub_comm (Real.exp (rv x))] at h4
+      rw [abs_of_pos hB0] at h3 h4
+      have : (37 : ℝ) / 2 ^ 106 * Real.exp (rv x) ≤ 1 / 100 := by
+        have : (37 : ℝ) / 2 ^ 106 ≤ 1 / 100 := by norm_num
+        nlinarith [hBr.2]
+      constructor <;> linarith [hBr.1, hBr.2]
+    have hp1 : |rv w * rv (TwoFloat.exp x)| ≤ 2 ^ 1019 := by
+      rw [abs_mul]
+      calc |rv w| * |rv (TwoFloat.exp x)| ≤ (101 / 100 * A) * (101 / 100) :=
+            mul_le_mul hwabs.2 hEabs.2 (abs_nonneg _) (by positivity)
+        _ ≤ (101 / 100 * (2 * (1 / 128))) * (101 / 100) := by
+            apply mul_le_mul_of_nonneg_right _ (by norm_num)
+            apply mul_le_mul_of_nonneg_left _ (by norm_num)
+            linarith
+        _ ≤ 2 ^ 1019 := by norm_num
+    have hp0 : 1 / 2 ^ 957 ≤ |rv w * rv (TwoFloat.exp x)| := by
+      rw [abs_mul]
+      calc (1 : ℝ) / 2 ^ 957 ≤ (99 / 100 * (1 / 2 ^ 950)) * (98 / 100) := by norm_num
+        _ ≤ (99 / 100 * A) * (98 / 100) := by
+            apply mul_le_mul_of_nonneg_right _ (by norm_num)
+            apply mul_le_mul_of_nonneg_left _ (by norm_num)
+            linarith
+        _ ≤ |rv w| * |rv (TwoFloat.exp x)| := mul_le_mul hwabs.1 hEabs.1 (by norm_num) (abs_nonneg _)
+    obtain ⟨resvw, hres⟩ := mul_rv_rel wvw Evw hp0 hp1
+    refine ⟨resvw, ?_⟩
+    generalize rv (arithmetic.impl_Mul_TwoFloat_for_TwoFloat.mul w (TwoFloat.exp x)) = res at *
+    have hres' : |(-res) - (-rv w) * rv (TwoFloat.exp x)| ≤ 7 / 2 ^ 106 * |(-rv w) * rv (TwoFloat.exp x)| := by
+      rw [show -res - -rv w * rv (TwoFloat.exp x) = -(res - rv w * rv (TwoFloat.exp x)) by ring, abs_neg,
+        neg_mul, abs_neg]
+      exact hres
+    have core := prod_rel_gen hA0 hB0 hwA hE hres' (by positivity) (by positivity) (ε := 54 / 2 ^ 106) (by norm_num)
+    have eAB : A * Real.exp (rv x) = -(Real.exp (rv x) - 1) := by
+      have : Real.exp t * Real.exp (rv x) = 1 := by rw [← Real.exp_add, ht]; simp
+      rw [hA, sub_mul, this]; ring
+    rw [eAB] at core
+    rw [show -res - -(Real.exp (rv x) - 1) = -(res - (Real.exp (rv x) - 1)) by ring, abs_neg] at core
+    have hneg1 : Real.exp (rv x) - 1 < 0 := by
+      have : Real.exp (rv x) < 1 := by rw [← Real.exp_zero]; exact Real.exp_lt_exp.2 hxneg
+      linarith
+    rw [abs_of_neg hneg1]
+    exact core
+  · -- x = 0
+    have hnl : ¬ ROrd.isLt (base.impl_PartialOrd_f64_for_TwoFloat.partial_cmp x (f64lit 0x0000000000000000)) = true := by
+      rw [C14f.lt_zero_switch x hv]; omega
+    rw [if_neg hnl]
+    obtain ⟨-, -, z3, z4, z5⟩ := C04x.mul_tt_zero_left x _ hv hzero hrvw.1.1 hrvw.1.2.1
+    refine ⟨⟨z4, z5⟩, ?_⟩
+    have hx0 : rv x = 0 := by unfold rv; rw [hzero]; simp
+    have hr0 : rv (arithmetic.impl_Mul_TwoFloat_for_TwoFloat.mul x (arithmetic.impl_Add_f64_for_TwoFloat.add
+      (arithmetic.impl_Mul_TwoFloat_for_TwoFloat.mul (TwoFloat.abs x) (hp (TwoFloat.abs x) 12))
+      (f64lit 0x3ff0000000000000))) = 0 := by
+      unfold rv
+      have : (arithmetic.impl_Mul_TwoFloat_for_TwoFloat.mul x (arithmetic.impl_Add_f64_for_TwoFloat.add
+        (arithmetic.impl_Mul_TwoFloat_for_TwoFloat.mul (TwoFloat.abs x) (hp (TwoFloat.abs x) 12))
+        (f64lit 0x3ff0000000000000))).V = 0 := z3
+      rw [this]; simp
+    rw [hr0, hx0, Real.exp_zero]
+    norm_num
+  · -- x > 0
+    have hnl : ¬ ROrd.isLt (base.impl_PartialOrd_f64_for_TwoFloat.partial_cmp x (f64lit 0x0000000000000000)) = true := by
+      rw [C14f.lt_zero_switch x hv]; omega
+    rw [if_neg hnl, c1 hpos]
+    rw [c1 hpos] at harv
+    have hxpos : 0 < rv x := div_pos (by exact_mod_cast hpos) hU
+    have hxabs : |rv x| = rv x := abs_of_pos hxpos
+    have ht128 : rv x ≤ 1 / 128 := by
+      rw [hxabs] at h8; exact le_trans h8 (by norm_num)
+    have hlo' : 1 / 2 ^ 950 ≤ rv x := by
+      rcases hlo with h | h
+      · exfalso; linarith
+      · rw [hxabs] at h; exact h
+    obtain ⟨wvw, hw1⟩ := expm1_kernel ⟨hv, hw⟩ ⟨hv, hw⟩ hxabs ht128 hlo'
+    refine ⟨wvw, ?_⟩
+    obtain ⟨tay, tge⟩ := C14f.taylor_pos hxpos ht128
+    generalize rv (arithmetic.impl_Mul_TwoFloat_for_TwoFloat.mul x (arithmetic.impl_Add_f64_for_TwoFloat.add
+      (arithmetic.impl_Mul_TwoFloat_for_TwoFloat.mul x (hp x 12)) (f64lit 0x3ff0000000000000))) = w at *
+    rw [hxabs] at hw1
+    have hA0 : 0 < Real.exp (rv x) - 1 := by linarith
+    rw [abs_of_pos hA0]
+    have h1 := abs_add_le (w - rv x * (rv x * PR (rv x) 12 + 1)) (rv x * (rv x * PR (rv x) 12 + 1) - (Real.exp (rv x) - 1))
+    rw [show w - rv x * (rv x * PR (rv x) 12 + 1) + (rv x * (rv x * PR (rv x) 12 + 1) - (Real.exp (rv x) - 1))
+      = w - (Real.exp (rv x) - 1) by ring] at h1
+    have h2 : (93 : ℝ) / 10 / 2 ^ 106 * rv x ≤ 93 / 10 / 2 ^ 106 * (Real.exp (rv x) - 1) :=
+      mul_le_mul_of_nonneg_left tge (by positivity)
+    have h3 : (93 : ℝ) / 10 / 2 ^ 106 * (Real.exp (rv x) - 1) + 1 / 100 / 2 ^ 106 * (Real.exp (rv x) - 1)
+        ≤ 54 / 2 ^ 106 * (Real.exp (rv x) - 1) := by
+      rw [← add_mul]; exact mul_le_mul_of_nonneg_right (by norm_num) hA0.le
+    linarith
+
+
+theorem em1_small {x : TwoFloat} (hx : VW x) (h7 : |val x| ≤ 1 / 2 ^ 7) (hlo : 1 / 2 ^ 950 ≤ |val x|) :
+    Em1 x (54 / 2 ^ 106) := em1_small128 x hx.1 hx.2 h7 (Or.inr hlo)
+
+/-- every branch: `2^-45`, and `2^-100` outside `[−0.70, 0.41]` -/
+theorem em1_any {x : TwoFloat} (hx : VW x) (h1 : -600 ≤ val x) (h2 : val x ≤ 700) (hlo : 1 / 2 ^ 950 ≤ |val x|) :
+    Em1 x (1 / 2 ^ 45) ∧ ((val x ≤ -(7 / 10) ∨ 41 / 100 ≤ val x) → Em1 x (1 / 2 ^ 100)) := by
+  obtain ⟨a, b, c⟩ := C14f.exp_m1_bound_partial x hx.1 hx.2 h1 h2 (Or.inr hlo)
+  refine ⟨⟨⟨a, exp_m1_WF x⟩, ?_⟩, fun h => ⟨⟨a, exp_m1_WF x⟩, ?_⟩⟩
+  · rw [one_div_mul_eq_div]; exact c
+  · rw [one_div_mul_eq_div]; exact b (Or.inr h)
+
+
+/-! ### 3. the generic branch of `ln_1p` as two Newton steps -/
+
+theorem ln_1p_eq_steps (v : TwoFloat)
+    (h1 : base.impl_PartialEq_f64_for_TwoFloat.eq v (f64lit 0x0000000000000000) = false)
+    (h2 : ROrd.isLe (base.impl_PartialOrd_f64_for_TwoFloat.partial_cmp v (F64.neg (f64lit 0x3ff0000000000000))) = false) :
+    TwoFloat.ln_1p v =
+      (let x0 := convert.impl_From_f64_for_TwoFloat.from (Libm.log1p v.hi)
+       let x1 := arithmetic.impl_Sub_TwoFloat_for_TwoFloat.sub x0 (corr1p v x0)
+       arithmetic.impl_Sub_TwoFloat_for_TwoFloat.sub x1 (corr1p v x1)) := by
+  unfold TwoFloat.ln_1p
+  simp only [h1, h2]
+  rfl
+
+theorem neg_one_facts : (F64.neg (f64lit 0x3ff0000000000000)).WF ∧ (F64.neg (f64lit 0x3ff0000000000000)).is_finite = true ∧
+    (F64.neg (f64lit 0x3ff0000000000000)).toInt = -(2 ^ 1074) := by decide +kernel
+
+/-- the two tests at the head of `ln_1p` on a valid non-zero argument above `−1` -/
+theorem ln_1p_conds {v : TwoFloat} (hv : v.Valid) (h0 : val v ≠ 0) (h1 : -1 < val v) :
+    base.impl_PartialEq_f64_for_TwoFloat.eq v (f64lit 0x0000000000000000) = false ∧
+    ROrd.isLe (base.impl_PartialOrd_f64_for_TwoFloat.partial_cmp v (F64.neg (f64lit 0x3ff0000000000000))) = false := by
+  have hU : (0 : ℝ) < 2 ^ 1074 := by positivity
+  constructor
+  · cases hq : base.impl_PartialEq_f64_for_TwoFloat.eq v (f64lit 0x0000000000000000)
+    · rfl
+    · exfalso
+      apply h0
+      unfold base.impl_PartialEq_f64_for_TwoFloat.eq at hq
+      rw [Bool.and_eq_true, req_eq, req_eq, Ident.f64lit_zero, eq_iff_toInt hv.1 rfl,
+        eq_iff_toInt hv.2.1 rfl, toInt_zero] at hq
+      show rv v = 0
+      unfold rv TwoFloat.V
+      rw [hq.1, hq.2]; simp
+  · rw [partial_cmp_tf_exact_of F64.roundFacts hv neg_one_facts.1 neg_one_facts.2.1, Bool.eq_false_iff]
+    intro hc
+    have := ROrd.isLe_ofInts.1 hc
+    rw [neg_one_facts.2.2] at this
+    have h2 : (v.V : ℝ) ≤ -(2 ^ 1074) := by exact_mod_cast this
+    have h3 : -1 < rv v := h1
+    unfold rv at h3
+    rw [lt_div_iff₀ hU] at h3
+    linarith
+
+/-! ### 4. the seed as a pair, and `log(1 + hi)` against `log(1 + v)` -/
+
+theorem seed_pair {h : F64} (hf : (Libm.log1p h).is_finite = true) (hw : h.WF) :
+    VW (convert.impl_From_f64_for_TwoFloat.from (Libm.log1p h)) ∧
+    val (convert.impl_From_f64_for_TwoFloat.from (Libm.log1p h)) = fval (Libm.log1p h) := by
+  have hLw : (Libm.log1p h).WF := PF.libm_log1p_WF hw
+  rw [from_eq]
+  obtain ⟨p1, p2, p3⟩ := pair_zero_spec hf hLw
+  refine ⟨⟨p2, p3⟩, ?_⟩
+  show rv _ = fv _
+  unfold rv fv; rw [p1]
+
+/-- the low word moves `1 + v` by at most `2^-53·|hi|` -/
+theorem lo_small {v : TwoFloat} (hv : v.Valid) : val v = fval v.hi + fval v.lo ∧ |fval v.lo| ≤ |fval v.hi| / 2 ^ 53 := by
+  have hU : (0 : ℝ) < 2 ^ 1074 := by positivity
+  constructor
+  · show rv v = fv v.hi + fv v.lo
+    unfold rv fv TwoFloat.V; push_cast; ring
+  · have hxl := two_pow_mul_abs_le_of_half_ulp hv.two_mul_abs_lo_le
+    have h : (2 : ℝ) ^ 53 * |(v.lo.toInt : ℝ)| ≤ |(v.hi.toInt : ℝ)| := by exact_mod_cast hxl
+    show |fv v.lo| ≤ |fv v.hi| / 2 ^ 53
+    unfold fv
+    rw [abs_div, abs_div, abs_of_pos hU, div_div, div_le_div_iff₀ hU (by positivity)]
+    nlinarith [abs_nonneg (v.lo.toInt : ℝ), abs_nonneg (v.hi.toInt : ℝ)]
+
+/-- `log(1 + v)` against `log(1 + hi)` -/
+theorem log1p_near_hi {v : TwoFloat} (hv : v.Valid) (h1 : 1 / 2 ^ 16 ≤ 1 + fval v.hi) :
+    0 < 1 + val v ∧ |Real.log (1 + val v) - Real.log (1 + fval v.hi)| ≤ 1 / 2 ^ 36 ∧
+    (|fval v.hi| ≤ 1 / 2 ^ 7 → |Real.log (1 + val v) - Real.log (1 + fval v.hi)| ≤ |fval v.hi| / 2 ^ 51) := by
+  obtain ⟨e, hlo⟩ := lo_small hv
+  have ha : 0 < 1 + fval v.hi := lt_of_lt_of_le (by positivity) h1
+  -- |lo| ≤ 2^-37·(1 + hi)
+  have hrel : |fval v.hi| ≤ 2 ^ 16 * (1 + fval v.hi) := by
+    rw [abs_le]; constructor <;> nlinarith
+  have hlo37 : |fval v.lo| ≤ 1 / 2 ^ 37 * (1 + fval v.hi) := by
+    have : |fval v.hi| / 2 ^ 53 ≤ 2 ^ 16 * (1 + fval v.hi) / 2 ^ 53 := div_le_div_of_nonneg_right hrel (by positivity)
+    have e2 : (2 : ℝ) ^ 16 * (1 + fval v.hi) / 2 ^ 53 = 1 / 2 ^ 37 * (1 + fval v.hi) := by
+      rw [show (53 : ℕ) = 16 + 37 from rfl, pow_add]; field_simp
+    linarith
+  have hdiff : |(1 + val v) - (1 + fval v.hi)| = |fval v.lo| := by rw [e]; congr 1; ring
+  have hn := log_near (U := 1 + val v) ha (ε := 1 / 2 ^ 37) (by positivity) (by norm_num) (by rw [hdiff]; exact hlo37)
+  have hpos : 0 < 1 + val v := by
+    have := (abs_le.1 hlo37).1
+    rw [e]
+    have : (1 : ℝ) / 2 ^ 37 * (1 + fval v.hi) ≤ 1 / 2 * (1 + fval v.hi) := mul_le_mul_of_nonneg_right (by norm_num) ha.le
+    linarith
+  refine ⟨hpos, le_trans hn (by norm_num), fun h7 => ?_⟩
+  have h7' := abs_le.1 h7
+  have hε : |fval v.lo| ≤ (|fval v.hi| / 2 ^ 52) * (1 + fval v.hi) := by
+    have e3 : |fval v.hi| / 2 ^ 52 * (1 + fval v.hi) = |fval v.hi| / 2 ^ 53 * (2 * (1 + fval v.hi)) := by
+      rw [show (53 : ℕ) = 52 + 1 from rfl, pow_succ]; field_simp
+    rw [e3]
+    have : |fval v.hi| / 2 ^ 53 * 1 ≤ |fval v.hi| / 2 ^ 53 * (2 * (1 + fval v.hi)) :=
+      mul_le_mul_of_nonneg_left (by linarith [h7'.1]) (div_nonneg (abs_nonneg _) (by norm_num))
+    linarith
+  have hn2 := log_near (U := 1 + val v) ha (ε := |fval v.hi| / 2 ^ 52) (div_nonneg (abs_nonneg _) (by norm_num))
+    (by
+      have : |fval v.hi| / 2 ^ 52 ≤ 1 / 2 ^ 7 / 2 ^ 52 := div_le_div_of_nonneg_right h7 (by positivity)
+      linarith [show (1 : ℝ) / 2 ^ 7 / 2 ^ 52 ≤ 1 / 2 by norm_num])
+    (by rw [hdiff]; exact hε)
+  refine le_trans hn2 (le_of_eq ?_)
+  rw [show (52 : ℕ) = 51 + 1 from rfl, pow_succ]; field_simp
+
+
+/-! ### 5. two Newton steps, generically -/
+
+/-- the error after one Newton step from an error `η`, with `Y = |ln(1+v)|` and `κ = dM·G·(1 + 2^-18)` -/
+noncomputable def Bstep (Y κ η : ℝ) : ℝ :=
+  (1 + cA) * (η ^ 2 + κ + (1 / 2 ^ 102 + 6 / 2 ^ 106) * (η + η ^ 2 + κ)
+      + Min.min (1 / 2 ^ 969) (1 / 2 ^ 36 * (η + η ^ 2 + κ) + 1 / 2 ^ 1017)) + cA * Y
+
+theorem Bstep_mono {Y κ η η' : ℝ} (h0 : 0 ≤ η) (h : η ≤ η') : Bstep Y κ η ≤ Bstep Y κ η' := by
+  unfold Bstep
+  have hca := cA_nonneg
+  have hsq : η ^ 2 ≤ η' ^ 2 := pow_le_pow_left₀ h0 h 2
+  have hT : η + η ^ 2 + κ ≤ η' + η' ^ 2 + κ := by linarith
+  have hm : Min.min (1 / 2 ^ 969) (1 / 2 ^ 36 * (η + η ^ 2 + κ) + 1 / 2 ^ 1017)
+      ≤ Min.min (1 / 2 ^ 969) (1 / 2 ^ 36 * (η' + η' ^ 2 + κ) + 1 / 2 ^ 1017) :=
+    min_le_min le_rfl (by have := mul_le_mul_of_nonneg_left hT (by norm_num : (0 : ℝ) ≤ 1 / 2 ^ 36); linarith)
+  have hθ := mul_le_mul_of_nonneg_left hT (by norm_num : (0 : ℝ) ≤ 1 / 2 ^ 102 + 6 / 2 ^ 106)
+  have := mul_le_mul_of_nonneg_left (by linarith : η ^ 2 + κ + (1 / 2 ^ 102 + 6 / 2 ^ 106) * (η + η ^ 2 + κ)
+      + Min.min (1 / 2 ^ 969) (1 / 2 ^ 36 * (η + η ^ 2 + κ) + 1 / 2 ^ 1017)
+      ≤ η' ^ 2 + κ + (1 / 2 ^ 102 + 6 / 2 ^ 106) * (η' + η' ^ 2 + κ)
+      + Min.min (1 / 2 ^ 969) (1 / 2 ^ 36 * (η' + η' ^ 2 + κ) + 1 / 2 ^ 1017)) (by linarith : (0 : ℝ) ≤ 1 + cA)
+  linarith
+
+/-- a simple upper bound of `Bstep` -/
+theorem Bstep_le {Y κ η : ℝ} (hη0 : 0 ≤ η) (hκ0 : 0 ≤ κ) :
+    Bstep Y κ η ≤ 10001 / 10000 * η ^ 2 + 10001 / 10000 * κ + 1 / 2 ^ 100 * η + 1 / 2 ^ 968 + cA * Y := by
+  unfold Bstep
+  have hca := cA_nonneg
+  have hca' : cA ≤ 1 / 2 ^ 100 := le_trans cA_le (by norm_num)
+  have hsq : 0 ≤ η ^ 2 := sq_nonneg η
+  have hm : Min.min (1 / 2 ^ 969) (1 / 2 ^ 36 * (η + η ^ 2 + κ) + 1 / 2 ^ 1017) ≤ (1 : ℝ) / 2 ^ 969 := min_le_left _ _
+  have hm0 : 0 ≤ Min.min ((1 : ℝ) / 2 ^ 969) (1 / 2 ^ 36 * (η + η ^ 2 + κ) + 1 / 2 ^ 1017) :=
+    le_min (by positivity) (by positivity)
+  set S := η ^ 2 + κ + (1 / 2 ^ 102 + 6 / 2 ^ 106) * (η + η ^ 2 + κ)
+      + Min.min (1 / 2 ^ 969) (1 / 2 ^ 36 * (η + η ^ 2 + κ) + 1 / 2 ^ 1017) with hS
+  have hS0 : 0 ≤ S := by rw [hS]; positivity
+  have h1 : (1 + cA) * S ≤ (1 + 1 / 2 ^ 100) * S := mul_le_mul_of_nonneg_right (by linarith) hS0
+  have e969 : (1 : ℝ) / 2 ^ 969 = 1 / 2 ^ 968 / 2 := by rw [div_div, ← pow_succ]
+  have h968 : (0 : ℝ) < 1 / 2 ^ 968 := by positivity
+  have h2 : (1 + 1 / 2 ^ 100) * S ≤ 10001 / 10000 * η ^ 2 + 10001 / 10000 * κ + 1 / 2 ^ 100 * η + 1 / 2 ^ 968 := by
+    have hS' : S ≤ η ^ 2 + κ + (1 / 2 ^ 102 + 6 / 2 ^ 106) * (η + η ^ 2 + κ) + 1 / 2 ^ 968 / 2 := by
+      rw [hS]; linarith
+    have h3 : (1 + 1 / 2 ^ 100) * S ≤ (1 + 1 / 2 ^ 100) * (η ^ 2 + κ + (1 / 2 ^ 102 + 6 / 2 ^ 106) * (η + η ^ 2 + κ)
+        + 1 / 2 ^ 968 / 2) := mul_le_mul_of_nonneg_left hS' (by norm_num)
+    have e4 : (1 + 1 / 2 ^ 100) * (η ^ 2 + κ + (1 / 2 ^ 102 + 6 / 2 ^ 106) * (η + η ^ 2 + κ) + 1 / 2 ^ 968 / 2)
+        = ((1 + 1 / 2 ^ 100) * (1 + (1 / 2 ^ 102 + 6 / 2 ^ 106))) * η ^ 2
+          + ((1 + 1 / 2 ^ 100) * (1 + (1 / 2 ^ 102 + 6 / 2 ^ 106))) * κ
+          + ((1 + 1 / 2 ^ 100) * (1 / 2 ^ 102 + 6 / 2 ^ 106)) * η + (1 + 1 / 2 ^ 100) / 2 * (1 / 2 ^ 968) := by ring
+    have c1 : ((1 : ℝ) + 1 / 2 ^ 100) * (1 + (1 / 2 ^ 102 + 6 / 2 ^ 106)) ≤ 10001 / 10000 := by norm_num
+    have c2 : ((1 : ℝ) + 1 / 2 ^ 100) * (1 / 2 ^ 102 + 6 / 2 ^ 106) ≤ 1 / 2 ^ 100 := by norm_num
+    have c3 : ((1 : ℝ) + 1 / 2 ^ 100) / 2 ≤ 1 := by norm_num
+    have m1 := mul_le_mul_of_nonneg_right c1 hsq
+    have m2 := mul_le_mul_of_nonneg_right c1 hκ0
+    have m3 := mul_le_mul_of_nonneg_right c2 hη0
+    have m4 := mul_le_mul_of_nonneg_right c3 h968.le
+    rw [e4] at h3
+    linarith
+  linarith
+
+/-- the hypothesis on `exp_m1` around `y = ln(1+v)`: accuracy `dM` and `G ≥ |e^x − 1|/e^x` for every pair within `R` -/
+def Around (y R dM G : ℝ) : Prop :=
+  ∀ x : TwoFloat, VW x → |val x - y| ≤ R → Em1 x dM ∧ |Real.exp (val x) - 1| ≤ G * Real.exp (val x)
+
+/-- **`ln_1p` as two Newton steps from a seed of accuracy `η₀`** -/
+theorem ln1p_two_steps {v : TwoFloat} {η0 R dM G : ℝ} (hv : VW v)
+    (hv1 : 1 / 2 ^ 16 ≤ 1 + val v) (hv2 : val v ≤ 2 ^ 961) (h0 : val v ≠ 0)
+    (hR : R ≤ 1 / 2 ^ 20) (hdM : 0 ≤ dM) (hG0 : 0 ≤ G) (hκ : dM * G ≤ 1 / 2 ^ 40)
+    (hseed : VW (convert.impl_From_f64_for_TwoFloat.from (Libm.log1p v.hi)) ∧
+      |val (convert.impl_From_f64_for_TwoFloat.from (Libm.log1p v.hi)) - Real.log (1 + val v)| ≤ η0)
+    (hη : η0 ≤ R)
+    (H : Around (Real.log (1 + val v)) R dM G)
+    (hB : Bstep |Real.log (1 + val v)| (dM * G * (1 + 1 / 2 ^ 18)) η0 ≤ R) :
+    VW (TwoFloat.ln_1p v) ∧
+    |val (TwoFloat.ln_1p v) - Real.log (1 + val v)|
+      ≤ Bstep |Real.log (1 + val v)| (dM * G * (1 + 1 / 2 ^ 18))
+          (Bstep |Real.log (1 + val v)| (dM * G * (1 + 1 / 2 ^ 18)) η0) := by
+  have hpos : -1 < val v := by
+    have : (0 : ℝ) < 1 / 2 ^ 16 := by positivity
+    linarith
+  obtain ⟨c1, c2⟩ := ln_1p_conds hv.1 h0 hpos
+  rw [ln_1p_eq_steps v c1 c2]
+  dsimp only
+  obtain ⟨hx0, he0⟩ := hseed
+  generalize convert.impl_From_f64_for_TwoFloat.from (Libm.log1p v.hi) = x0 at *
+  set y := Real.log (1 + val v) with hy
+  set κ := dM * G * (1 + 1 / 2 ^ 18) with hκdef
+  have hη0 : 0 ≤ η0 := le_trans (abs_nonneg _) he0
+  -- a step from error ≤ η stays below Bstep η
+  have step : ∀ (x : TwoFloat) (η : ℝ), VW x → |val x - y| ≤ η → η ≤ R →
+      VW (arithmetic.impl_Sub_TwoFloat_for_TwoFloat.sub x (corr1p v x)) ∧
+      |val (arithmetic.impl_Sub_TwoFloat_for_TwoFloat.sub x (corr1p v x)) - y| ≤ Bstep |y| κ η := by
+    intro x η hx hxe hηR
+    obtain ⟨hE, hGx⟩ := H x hx (le_trans hxe hηR)
+    obtain ⟨-, r1, qa, q0, q1, q2', r2'⟩ := ln1p_step hv hx hv1 hv2 (le_trans hxe (le_trans hηR hR)) hdM hG0 hGx hκ hE
+    have q2 : qa ≤ 1 / 2 ^ 36 * (|rv x - y| + (rv x - y) ^ 2 + κ) + 1 / 2 ^ 1017 := q2'
+    have r2 : |rv (arithmetic.impl_Sub_TwoFloat_for_TwoFloat.sub x (corr1p v x)) - y|
+        ≤ (1 + cA) * ((rv x - y) ^ 2 + κ + (1 / 2 ^ 102 + 6 / 2 ^ 106) * (|rv x - y| + (rv x - y) ^ 2 + κ) + qa)
+          + cA * |y| := r2'
+    clear q2' r2'
+    refine ⟨r1, le_trans r2 ?_⟩
+    unfold Bstep
+    have hη0' : 0 ≤ η := le_trans (abs_nonneg _) hxe
+    have hsq : (rv x - y) ^ 2 ≤ η ^ 2 := by
+      rw [← sq_abs]; exact pow_le_pow_left₀ (abs_nonneg _) hxe 2
+    have hT : |rv x - y| + (rv x - y) ^ 2 + κ ≤ η + η ^ 2 + κ := by linarith [show |rv x - y| ≤ η from hxe]
+    have hm : qa ≤ Min.min (1 / 2 ^ 969) (1 / 2 ^ 36 * (η + η ^ 2 + κ) + 1 / 2 ^ 1017) :=
+      le_min q1 (le_trans q2 (by
+        have := mul_le_mul_of_nonneg_left hT (by norm_num : (0 : ℝ) ≤ 1 / 2 ^ 36); linarith))
+    have hθ := mul_le_mul_of_nonneg_left hT (by norm_num : (0 : ℝ) ≤ 1 / 2 ^ 102 + 6 / 2 ^ 106)
+    have hca := cA_nonneg
+    have := mul_le_mul_of_nonneg_left (by linarith : (rv x - y) ^ 2 + κ
+        + (1 / 2 ^ 102 + 6 / 2 ^ 106) * (|rv x - y| + (rv x - y) ^ 2 + κ) + qa
+        ≤ η ^ 2 + κ + (1 / 2 ^ 102 + 6 / 2 ^ 106) * (η + η ^ 2 + κ)
+        + Min.min (1 / 2 ^ 969) (1 / 2 ^ 36 * (η + η ^ 2 + κ) + 1 / 2 ^ 1017)) (by linarith : (0 : ℝ) ≤ 1 + cA)
+    linarith
+  obtain ⟨hx1, he1⟩ := step x0 η0 hx0 he0 hη
+  obtain ⟨hx2, he2⟩ := step _ _ hx1 he1 hB
+  exact ⟨hx2, he2⟩
+
+
+theorem Bstep_nonneg {Y κ η : ℝ} (hY : 0 ≤ Y) (hκ : 0 ≤ κ) (hη : 0 ≤ η) : 0 ≤ Bstep Y κ η := by
+  unfold Bstep
+  have hca := cA_nonneg
+  have hm0 : 0 ≤ Min.min ((1 : ℝ) / 2 ^ 969) (1 / 2 ^ 36 * (η + η ^ 2 + κ) + 1 / 2 ^ 1017) :=
+    le_min (by positivity) (by positivity)
+  positivity
+
+/-- the seed `x₀ = (libm::log1p(hi), 0)` against `y = ln(1 + v)` -/
+theorem seed_err {v : TwoFloat} (hv : VW v) (h1 : 1 / 2 ^ 16 ≤ 1 + fval v.hi) (h2 : fval v.hi ≤ 2 ^ 999) :
+    VW (convert.impl_From_f64_for_TwoFloat.from (Libm.log1p v.hi)) ∧
+    |val (convert.impl_From_f64_for_TwoFloat.from (Libm.log1p v.hi)) - Real.log (1 + val v)| ≤ 1 / 2 ^ 32 + 1 / 2 ^ 36 ∧
+    (|fval v.hi| ≤ 1 / 2 ^ 20 →
+      |val (convert.impl_From_f64_for_TwoFloat.from (Libm.log1p v.hi)) - Real.log (1 + val v)|
+        ≤ |fval v.hi| / 2 ^ 18 + |fval v.hi| / 2 ^ 51) := by
+  obtain ⟨sf, s1, s2⟩ := libm_log1p_coarse hv.1.1 hv.2.1 h1 h2
+  obtain ⟨px, pe⟩ := seed_pair sf hv.2.1
+  obtain ⟨-, n1, n2⟩ := log1p_near_hi hv.1 h1
+  rw [pe]
+  refine ⟨px, ?_, fun hs => ?_⟩
+  · have := abs_sub_le (fval (Libm.log1p v.hi)) (Real.log (1 + fval v.hi)) (Real.log (1 + val v))
+    rw [abs_sub_comm (Real.log (1 + fval v.hi))] at this
+    have s1' : |fval (Libm.log1p v.hi) - Real.log (1 + fval v.hi)| ≤ 1 / 2 ^ 32 := s1
+    linarith
+  · have := abs_sub_le (fval (Libm.log1p v.hi)) (Real.log (1 + fval v.hi)) (Real.log (1 + val v))
+    rw [abs_sub_comm (Real.log (1 + fval v.hi))] at this
+    have s2' : |fval (Libm.log1p v.hi) - Real.log (1 + fval v.hi)| ≤ |fval v.hi| / 2 ^ 18 := s2 hs
+    have n2' := n2 (le_trans hs (by norm_num))
+    linarith
+
+/-! ### 6. the regime `|x| ≤ 2^-8` -/
+
+/-- numerical closing of the regime `|x| ≤ 2^-8`: `Y = |ln(1+v)| ∈ [2^-851, 1/254]`, radius `R ∈ [Y/2^90, Y/2^10]` -/
+theorem small_numeric {Y η0 R : ℝ} (hY0 : 1 / 2 ^ 851 ≤ Y) (hY1 : Y ≤ 1 / 254) (h0 : 0 ≤ η0) (h1 : η0 ≤ 1 / 2 ^ 31)
+    (h2 : η0 ≤ R) (hR1 : R ≤ Y / 2 ^ 10) (hR2 : Y / 2 ^ 90 ≤ R) (h4 : η0 ^ 2 * η0 ^ 2 ≤ 2 / 2 ^ 106 * Y) :
+    Bstep Y (54 / 2 ^ 106 * ((Y + R) * (1 + 1 / 128)) * (1 + 1 / 2 ^ 18)) η0 ≤ R ∧
+    Bstep Y (54 / 2 ^ 106 * ((Y + R) * (1 + 1 / 128)) * (1 + 1 / 2 ^ 18))
+      (Bstep Y (54 / 2 ^ 106 * ((Y + R) * (1 + 1 / 128)) * (1 + 1 / 2 ^ 18)) η0) ≤ Y / 2 ^ 100 := by
+  have hYpos : 0 < Y := lt_of_lt_of_le (by positivity) hY0
+  have hR0 : 0 ≤ R := le_trans h0 h2
+  set κ := 54 / 2 ^ 106 * ((Y + R) * (1 + 1 / 128)) * (1 + 1 / 2 ^ 18) with hκ
+  have hκ0 : 0 ≤ κ := by rw [hκ]; positivity
+  have hκle : κ ≤ 5449 / 100 / 2 ^ 106 * Y := by
+    have e0 : κ ≤ 54 / 2 ^ 106 * ((Y + Y / 2 ^ 10) * (1 + 1 / 128)) * (1 + 1 / 2 ^ 18) := by
+      rw [hκ]
+      apply mul_le_mul_of_nonneg_right _ (by norm_num)
+      apply mul_le_mul_of_nonneg_left _ (by norm_num)
+      apply mul_le_mul_of_nonneg_right _ (by norm_num)
+      linarith
+    have e : 54 / 2 ^ 106 * ((Y + Y / 2 ^ 10) * (1 + 1 / 128)) * (1 + 1 / 2 ^ 18)
+        = (54 / 2 ^ 106 * ((1 + 1 / 2 ^ 10) * (1 + 1 / 128)) * (1 + 1 / 2 ^ 18)) * Y := by ring
+    rw [e] at e0
+    exact le_trans e0 (mul_le_mul_of_nonneg_right (by norm_num) hYpos.le)
+  have hca : cA * Y ≤ 301 / 100 / 2 ^ 106 * Y := mul_le_mul_of_nonneg_right cA_le' hYpos.le
+  have hsq0 : 0 ≤ η0 ^ 2 := sq_nonneg η0
+  have hsq : η0 ^ 2 ≤ 1 / 2 ^ 31 * R := by
+    rw [sq]; exact mul_le_mul h1 h2 h0 (by positivity)
+  have h968 : (1 : ℝ) / 2 ^ 968 ≤ 1 / 2 ^ 11 / 2 ^ 106 * Y := by
+    have : (1 : ℝ) / 2 ^ 11 / 2 ^ 106 * (1 / 2 ^ 851) ≤ 1 / 2 ^ 11 / 2 ^ 106 * Y :=
+      mul_le_mul_of_nonneg_left hY0 (by positivity)
+    have e : (1 : ℝ) / 2 ^ 11 / 2 ^ 106 * (1 / 2 ^ 851) = 1 / 2 ^ 968 := by
+      rw [div_div, one_div_mul_one_div, ← pow_add, ← pow_add]
+    linarith
+  have h100 : ∀ t : ℝ, 0 ≤ t → t ≤ R → 1 / 2 ^ 100 * t ≤ 1 / 16 / 2 ^ 106 * Y := by
+    intro t _ ht
+    have := mul_le_mul_of_nonneg_left (le_trans ht hR1) (by positivity : (0 : ℝ) ≤ 1 / 2 ^ 100)
+    have e : (1 : ℝ) / 2 ^ 100 * (Y / 2 ^ 10) = 1 / 16 / 2 ^ 106 * Y := by
+      rw [show (106 : ℕ) = 100 + 6 from rfl, pow_add]; field_simp; ring
+    linarith
+  -- first step
+  have hB1 := Bstep_le (Y := Y) (κ := κ) h0 hκ0
+  set b1 := 10001 / 10000 * η0 ^ 2 + 5758 / 100 / 2 ^ 106 * Y with hb1
+  have hB1b : Bstep Y κ η0 ≤ b1 := by
+    refine le_trans hB1 ?_
+    have := h100 η0 h0 h2
+    rw [hb1]
+    have e : (5758 : ℝ) / 100 / 2 ^ 106 * Y = 10001 / 10000 * (5449 / 100 / 2 ^ 106 * Y) + 1 / 16 / 2 ^ 106 * Y
+        + 1 / 2 ^ 11 / 2 ^ 106 * Y + 301 / 100 / 2 ^ 106 * Y
+        + (5758 / 100 - 10001 / 10000 * (5449 / 100) - 1 / 16 - 1 / 2 ^ 11 - 301 / 100) / 2 ^ 106 * Y := by ring
+    have : 0 ≤ ((5758 : ℝ) / 100 - 10001 / 10000 * (5449 / 100) - 1 / 16 - 1 / 2 ^ 11 - 301 / 100) / 2 ^ 106 * Y :=
+      mul_nonneg (by norm_num) hYpos.le
+    linarith
+  have hb10 : 0 ≤ b1 := by rw [hb1]; positivity
+  have hb1R : b1 ≤ R := by
+    rw [hb1]
+    have t1 : (10001 : ℝ) / 10000 * η0 ^ 2 ≤ 10001 / 10000 * (1 / 2 ^ 31 * R) := mul_le_mul_of_nonneg_left hsq (by norm_num)
+    have t2 : (5758 : ℝ) / 100 / 2 ^ 106 * Y ≤ 5758 / 100 / 2 ^ 106 * (2 ^ 90 * R) := by
+      apply mul_le_mul_of_nonneg_left _ (by positivity)
+      rw [div_le_iff₀ (by positivity)] at hR2
+      linarith
+    have e : R = 10001 / 10000 * (1 / 2 ^ 31 * R) + 5758 / 100 / 2 ^ 106 * (2 ^ 90 * R)
+        + (1 - 10001 / 10000 * (1 / 2 ^ 31) - 5758 / 100 / 2 ^ 106 * 2 ^ 90) * R := by ring
+    have : 0 ≤ ((1 : ℝ) - 10001 / 10000 * (1 / 2 ^ 31) - 5758 / 100 / 2 ^ 106 * 2 ^ 90) * R :=
+      mul_nonneg (by norm_num) hR0
+    linarith
+  refine ⟨le_trans hB1b hb1R, ?_⟩
+  -- second step
+  have hB10 := Bstep_nonneg (Y := Y) (κ := κ) (η := η0) hYpos.le hκ0 h0
+  refine le_trans (Bstep_mono hB10 hB1b) (le_trans (Bstep_le hb10 hκ0) ?_)
+  have hb1sq : b1 ^ 2 ≤ 4003 / 1000 / 2 ^ 106 * Y := by
+    have e1 : b1 ^ 2 ≤ 2 * (10001 / 10000 * η0 ^ 2) ^ 2 + 2 * (5758 / 100 / 2 ^ 106 * Y) ^ 2 := by
+      rw [hb1]
+      nlinarith [sq_nonneg (10001 / 10000 * η0 ^ 2 - 5758 / 100 / 2 ^ 106 * Y)]
+    have e2 : 2 * (10001 / 10000 * η0 ^ 2) ^ 2 = (2 * (10001 / 10000) ^ 2) * (η0 ^ 2 * η0 ^ 2) := by ring
+    have e3 : 2 * (5758 / 100 / 2 ^ 106 * Y) ^ 2 = (2 * (5758 / 100) ^ 2 / 2 ^ 106 * Y) * (1 / 2 ^ 106 * Y) := by ring
+    have e4 : (2 * (10001 / 10000) ^ 2) * (η0 ^ 2 * η0 ^ 2) ≤ (2 * (10001 / 10000) ^ 2) * (2 / 2 ^ 106 * Y) :=
+      mul_le_mul_of_nonneg_left h4 (by norm_num)
+    have e5 : (2 * (5758 / 100) ^ 2 / 2 ^ 106 * Y) ≤ 1 / 1000 := by
+      have : (2 * (5758 / 100) ^ 2 / 2 ^ 106 * Y) ≤ 2 * (5758 / 100) ^ 2 / 2 ^ 106 * (1 / 254) :=
+        mul_le_mul_of_nonneg_left hY1 (by positivity)
+      refine le_trans this (by norm_num)
+    have e6 : (2 * (5758 / 100) ^ 2 / 2 ^ 106 * Y) * (1 / 2 ^ 106 * Y) ≤ 1 / 1000 * (1 / 2 ^ 106 * Y) :=
+      mul_le_mul_of_nonneg_right e5 (by positivity)
+    rw [e2, e3] at e1
+    have e7 : (4003 : ℝ) / 1000 / 2 ^ 106 * Y = (2 * (10001 / 10000) ^ 2) * (2 / 2 ^ 106 * Y) + 1 / 1000 * (1 / 2 ^ 106 * Y)
+        + (4003 / 1000 - 4 * (10001 / 10000) ^ 2 - 1 / 1000) / 2 ^ 106 * Y := by ring
+    have : 0 ≤ ((4003 : ℝ) / 1000 - 4 * (10001 / 10000) ^ 2 - 1 / 1000) / 2 ^ 106 * Y :=
+      mul_nonneg (by norm_num) hYpos.le
+    linarith
+  have := h100 b1 hb10 hb1R
+  have e : Y / 2 ^ 100 = 10001 / 10000 * (4003 / 1000 / 2 ^ 106 * Y) + 10001 / 10000 * (5449 / 100 / 2 ^ 106 * Y)
+      + 1 / 16 / 2 ^ 106 * Y + 1 / 2 ^ 11 / 2 ^ 106 * Y + 301 / 100 / 2 ^ 106 * Y
+      + (64 - 10001 / 10000 * (4003 / 1000) - 10001 / 10000 * (5449 / 100) - 1 / 16 - 1 / 2 ^ 11 - 301 / 100) / 2 ^ 106 * Y := by
+    rw [show (106 : ℕ) = 100 + 6 from rfl, pow_add]; field_simp; ring
+  have hlast : 0 ≤ ((64 : ℝ) - 10001 / 10000 * (4003 / 1000) - 10001 / 10000 * (5449 / 100) - 1 / 16 - 1 / 2 ^ 11 - 301 / 100)
+      / 2 ^ 106 * Y := mul_nonneg (by norm_num) hYpos.le
+  have m1 := mul_le_mul_of_nonneg_left hb1sq (by norm_num : (0 : ℝ) ≤ 10001 / 10000)
+  have m2 := mul_le_mul_of_nonneg_left hκle (by norm_num : (0 : ℝ) ≤ 10001 / 10000)
+  linarith
+
+/-- the high word against the value of a valid pair -/
+theorem hi_vs_val {v : TwoFloat} (hv : v.Valid) :
+    |fval v.hi| ≤ |val v| * (1 + 1 / 2 ^ 52) ∧ |val v| ≤ |fval v.hi| * (1 + 1 / 2 ^ 53) := by
+  obtain ⟨e, hl⟩ := lo_small hv
+  have h1 := abs_add_le (fval v.hi) (fval v.lo)
+  rw [← e] at h1
+  have h2 := abs_sub_abs_le_abs_sub (fval v.hi) (-fval v.lo)
+  rw [abs_neg, sub_neg_eq_add, ← e] at h2
+  have hH := abs_nonneg (fval v.hi)
+  have e53 : |fval v.hi| / 2 ^ 53 = |fval v.hi| * (1 / 2 ^ 53) := by ring
+  rw [e53] at hl
+  constructor
+  · have : |fval v.hi| * (1 - 1 / 2 ^ 53) ≤ |val v| := by linarith
+    have h3 : |fval v.hi| * ((1 - 1 / 2 ^ 53) * (1 + 1 / 2 ^ 52)) ≤ |val v| * (1 + 1 / 2 ^ 52) := by
+      rw [← mul_assoc]; exact mul_le_mul_of_nonneg_right this (by norm_num)
+    have h4 : |fval v.hi| * 1 ≤ |fval v.hi| * ((1 - 1 / 2 ^ 53) * (1 + 1 / 2 ^ 52)) :=
+      mul_le_mul_of_nonneg_left (by norm_num) hH
+    linarith
+  · linarith
+
+/-- `|ln(1 + V)|` against `|V|` for `|V| ≤ 2^-8` -/
+theorem logabs_small {V : ℝ} (h : |V| ≤ 1 / 2 ^ 8) :
+    |V| * (1 - 1 / 2 ^ 7) ≤ |Real.log (1 + V)| ∧ |Real.log (1 + V)| ≤ |V| * (1 + 1 / 2 ^ 7) := by
+  have hl := log1p_lin (X := V) (le_trans h (by norm_num))
+  have h0 := abs_nonneg V
+  have hsq : 2 * V ^ 2 ≤ |V| * (1 / 2 ^ 7) := by
+    rw [← sq_abs, sq]
+    have : |V| * |V| ≤ |V| * (1 / 2 ^ 8) := mul_le_mul_of_nonneg_left h h0
+    have e : |V| * (1 / 2 ^ 7) = 2 * (|V| * (1 / 2 ^ 8)) := by ring
+    linarith
+  have h1 := abs_sub_abs_le_abs_sub (Real.log (1 + V)) V
+  have h2 := abs_sub_abs_le_abs_sub V (Real.log (1 + V))
+  rw [abs_sub_comm V] at h2
+  constructor <;> linarith
+
+/-- the seed, the radius and the `exp_m1` hypothesis in the regime `2^-948 ≤ |x| ≤ 2^-8` -/
+theorem small_setup (x : TwoFloat) (hv : x.Valid) (hw : x.WF)
+    (hlo : 1 / 2 ^ 948 ≤ |val x|) (hhi : |val x| ≤ 1 / 2 ^ 8) :
+    ∃ η0 R : ℝ, 0 ≤ η0 ∧ η0 ≤ 1 / 2 ^ 31 ∧ η0 ≤ R ∧ R ≤ |Real.log (1 + val x)| / 2 ^ 10 ∧
+      |Real.log (1 + val x)| / 2 ^ 90 ≤ R ∧ R ≤ 1 / 2 ^ 20 ∧
+      η0 ^ 2 * η0 ^ 2 ≤ 2 / 2 ^ 106 * |Real.log (1 + val x)| ∧
+      (VW (convert.impl_From_f64_for_TwoFloat.from (Libm.log1p x.hi)) ∧
+        |val (convert.impl_From_f64_for_TwoFloat.from (Libm.log1p x.hi)) - Real.log (1 + val x)| ≤ η0) ∧
+      Around (Real.log (1 + val x)) R (54 / 2 ^ 106) ((|Real.log (1 + val x)| + R) * (1 + 1 / 128)) ∧
+      |Real.log (1 + val x)| ≤ 1 / 254 ∧ |val x| * (1 - 1 / 2 ^ 7) ≤ |Real.log (1 + val x)| := by
+  obtain ⟨hH1, hH2⟩ := hi_vs_val hv
+  obtain ⟨hY1, hY2⟩ := logabs_small hhi
+  obtain ⟨v1, v2⟩ := abs_le.1 hhi
+  have hVpos : 0 < |val x| := lt_of_lt_of_le (by positivity) hlo
+  have hV0 : val x ≠ 0 := abs_pos.1 hVpos
+  set Y := |Real.log (1 + val x)| with hYdef
+  have hYlo : 1 / 2 ^ 949 ≤ Y := by
+    have : (1 : ℝ) / 2 ^ 948 * (1 - 1 / 2 ^ 7) ≤ |val x| * (1 - 1 / 2 ^ 7) :=
+      mul_le_mul_of_nonneg_right hlo (by norm_num)
+    have e : (1 : ℝ) / 2 ^ 949 ≤ 1 / 2 ^ 948 * (1 - 1 / 2 ^ 7) := by
+      rw [show (949 : ℕ) = 948 + 1 from rfl, pow_succ]
+      have : (0 : ℝ) < 1 / 2 ^ 948 := by positivity
+      have e2 : (1 : ℝ) / (2 ^ 948 * 2) = 1 / 2 ^ 948 * (1 / 2) := by field_simp
+      rw [e2]; nlinarith
+    linarith
+  have hYhi : Y ≤ 1 / 254 := by
+    have : |val x| * (1 + 1 / 2 ^ 7) ≤ 1 / 2 ^ 8 * (1 + 1 / 2 ^ 7) := mul_le_mul_of_nonneg_right hhi (by norm_num)
+    have : (1 : ℝ) / 2 ^ 8 * (1 + 1 / 2 ^ 7) ≤ 1 / 254 := by norm_num
+    linarith
+  have hYpos : 0 < Y := lt_of_lt_of_le (by positivity) hYlo
+  have hHabs : |fval x.hi| ≤ 1 / 2 ^ 7 := by
+    have : |val x| * (1 + 1 / 2 ^ 52) ≤ 1 / 2 ^ 8 * (1 + 1 / 2 ^ 52) := mul_le_mul_of_nonneg_right hhi (by norm_num)
+    have : (1 : ℝ) / 2 ^ 8 * (1 + 1 / 2 ^ 52) ≤ 1 / 2 ^ 7 := by norm_num
+    linarith
+  obtain ⟨g1, g2⟩ := abs_le.1 hHabs
+  have hHY : |fval x.hi| ≤ 102 / 100 * Y := by
+    have h1 : |val x| * (1 - 1 / 2 ^ 7) * (102 / 100) ≤ Y * (102 / 100) := mul_le_mul_of_nonneg_right hY1 (by norm_num)
+    have h2 : |val x| * (1 + 1 / 2 ^ 52) ≤ |val x| * ((1 - 1 / 2 ^ 7) * (102 / 100)) :=
+      mul_le_mul_of_nonneg_left (by norm_num) hVpos.le
+    linarith
+  have hYH : 98 / 100 * |fval x.hi| ≤ Y := by
+    have h1 : 98 / 100 * |fval x.hi| ≤ 98 / 100 * (|val x| * (1 + 1 / 2 ^ 52)) :=
+      mul_le_mul_of_nonneg_left hH1 (by norm_num)
+    have h2 : |val x| * (98 / 100 * (1 + 1 / 2 ^ 52)) ≤ |val x| * (1 - 1 / 2 ^ 7) :=
+      mul_le_mul_of_nonneg_left (by norm_num) hVpos.le
+    linarith
+  obtain ⟨sx, s1, s2⟩ := seed_err ⟨hv, hw⟩ (by linarith [show (1 : ℝ) / 2 ^ 16 ≤ 1 - 1 / 2 ^ 7 by norm_num])
+    (le_trans g2 (le_trans (by norm_num) (one_le_pow₀ (by norm_num : (1 : ℝ) ≤ 2))))
+  -- the exp_m1 hypothesis around y
+  have hAround : ∀ R : ℝ, R ≤ Y / 2 ^ 10 →
+      Around (Real.log (1 + val x)) R (54 / 2 ^ 106) ((Y + R) * (1 + 1 / 128)) := by
+    intro R hR z hz hzy
+    have hzabs : |val z| ≤ Y + R := by
+      have := abs_sub_abs_le_abs_sub (val z) (Real.log (1 + val x))
+      linarith
+    have hzlo : Y - R ≤ |val z| := by
+      have := abs_sub_abs_le_abs_sub (Real.log (1 + val x)) (val z)
+      rw [abs_sub_comm] at this
+      linarith
+    have h128 : Y + R ≤ 1 / 128 := by
+      have : Y + Y / 2 ^ 10 = Y * (1 + 1 / 2 ^ 10) := by ring
+      have : Y * (1 + 1 / 2 ^ 10) ≤ 1 / 254 * (1 + 1 / 2 ^ 10) := mul_le_mul_of_nonneg_right hYhi (by norm_num)
+      linarith [show (1 : ℝ) / 254 * (1 + 1 / 2 ^ 10) ≤ 1 / 128 by norm_num]
+    have h950 : 1 / 2 ^ 950 ≤ |val z| := by
+      have e : Y - Y / 2 ^ 10 = Y * (1 - 1 / 2 ^ 10) := by ring
+      have h1 : (1 : ℝ) / 2 ^ 949 * (1 - 1 / 2 ^ 10) ≤ Y * (1 - 1 / 2 ^ 10) := mul_le_mul_of_nonneg_right hYlo (by norm_num)
+      have h2 : (1 : ℝ) / 2 ^ 950 ≤ 1 / 2 ^ 949 * (1 / 2) := by
+        rw [one_div_mul_one_div, ← pow_succ]
+      have h3 : (1 : ℝ) / 2 ^ 949 * (1 / 2) ≤ 1 / 2 ^ 949 * (1 - 1 / 2 ^ 10) :=
+        mul_le_mul_of_nonneg_left (by norm_num) (by positivity)
+      linarith
+    refine ⟨em1_small hz (le_trans hzabs (by linarith [show (1 : ℝ) / 128 = 1 / 2 ^ 7 by norm_num])) h950, ?_⟩
+    refine le_trans (g_abs (le_trans hzabs (by linarith))) ?_
+    apply mul_le_mul_of_nonneg_right _ (Real.exp_pos _).le
+    exact mul_le_mul hzabs (by linarith) (by positivity) (le_trans (abs_nonneg _) hzabs)
+  -- the seed accuracy and the radius
+  have hseed : ∃ η0 R : ℝ, 0 ≤ η0 ∧ η0 ≤ 1 / 2 ^ 31 ∧ η0 ≤ R ∧ R ≤ Y / 2 ^ 10 ∧ Y / 2 ^ 90 ≤ R ∧ R ≤ 1 / 2 ^ 20 ∧
+      η0 ^ 2 * η0 ^ 2 ≤ 2 / 2 ^ 106 * Y ∧
+      |val (convert.impl_From_f64_for_TwoFloat.from (Libm.log1p x.hi)) - Real.log (1 + val x)| ≤ η0 := by
+    by_cases hsm : |fval x.hi| ≤ 1 / 2 ^ 20
+    · have e : |fval x.hi| / 2 ^ 18 + |fval x.hi| / 2 ^ 51 = |fval x.hi| * (1 / 2 ^ 18 + 1 / 2 ^ 51) := by ring
+      have hY20 : Y ≤ 1 / 2 ^ 19 := by
+        have h1 : |val x| ≤ 1 / 2 ^ 20 * (1 + 1 / 2 ^ 53) :=
+          le_trans hH2 (mul_le_mul_of_nonneg_right hsm (by norm_num))
+        have h2 : |val x| * (1 + 1 / 2 ^ 7) ≤ 1 / 2 ^ 20 * (1 + 1 / 2 ^ 53) * (1 + 1 / 2 ^ 7) :=
+          mul_le_mul_of_nonneg_right h1 (by norm_num)
+        linarith [show (1 : ℝ) / 2 ^ 20 * (1 + 1 / 2 ^ 53) * (1 + 1 / 2 ^ 7) ≤ 1 / 2 ^ 19 by norm_num]
+      refine ⟨|fval x.hi| / 2 ^ 18 + |fval x.hi| / 2 ^ 51, Y / 2 ^ 12, by positivity, ?_, ?_, ?_, ?_, ?_, ?_, s2 hsm⟩
+      · rw [e]
+        have := mul_le_mul_of_nonneg_right hsm (by norm_num : (0 : ℝ) ≤ 1 / 2 ^ 18 + 1 / 2 ^ 51)
+        linarith [show (1 : ℝ) / 2 ^ 20 * (1 / 2 ^ 18 + 1 / 2 ^ 51) ≤ 1 / 2 ^ 31 by norm_num]
+      · rw [e]
+        have h1 := mul_le_mul_of_nonneg_right hHY (by norm_num : (0 : ℝ) ≤ 1 / 2 ^ 18 + 1 / 2 ^ 51)
+        have e2 : 102 / 100 * Y * (1 / 2 ^ 18 + 1 / 2 ^ 51) = (102 / 100 * (1 / 2 ^ 18 + 1 / 2 ^ 51)) * Y := by ring
+        have e3 : Y / 2 ^ 12 = 1 / 2 ^ 12 * Y := by ring
+        have := mul_le_mul_of_nonneg_right (show (102 : ℝ) / 100 * (1 / 2 ^ 18 + 1 / 2 ^ 51) ≤ 1 / 2 ^ 12 by norm_num) hYpos.le
+        linarith
+      · have e3 : Y / 2 ^ 12 = 1 / 2 ^ 12 * Y := by ring
+        have e4 : Y / 2 ^ 10 = 1 / 2 ^ 10 * Y := by ring
+        rw [e3, e4]; exact mul_le_mul_of_nonneg_right (by norm_num) hYpos.le
+      · have e3 : Y / 2 ^ 12 = 1 / 2 ^ 12 * Y := by ring
+        have e4 : Y / 2 ^ 90 = 1 / 2 ^ 90 * Y := by ring
+        rw [e3, e4]; exact mul_le_mul_of_nonneg_right (by norm_num) hYpos.le
+      · have : Y / 2 ^ 12 ≤ 1 / 2 ^ 19 / 2 ^ 12 := div_le_div_of_nonneg_right hY20 (by positivity)
+        linarith [show (1 : ℝ) / 2 ^ 19 / 2 ^ 12 ≤ 1 / 2 ^ 20 by norm_num]
+      · set t := |fval x.hi| / 2 ^ 18 + |fval x.hi| / 2 ^ 51 with ht
+        have ht0 : 0 ≤ t := by rw [ht]; positivity
+        have t1 : t ≤ 1 / 2 ^ 37 := by
+          rw [e]
+          have := mul_le_mul_of_nonneg_right hsm (by norm_num : (0 : ℝ) ≤ 1 / 2 ^ 18 + 1 / 2 ^ 51)
+          linarith [show (1 : ℝ) / 2 ^ 20 * (1 / 2 ^ 18 + 1 / 2 ^ 51) ≤ 1 / 2 ^ 37 by norm_num]
+        have t2 : t ≤ 1 / 2 ^ 17 * Y := by
+          rw [e]
+          have h1 := mul_le_mul_of_nonneg_right hHY (by norm_num : (0 : ℝ) ≤ 1 / 2 ^ 18 + 1 / 2 ^ 51)
+          have e2 : 102 / 100 * Y * (1 / 2 ^ 18 + 1 / 2 ^ 51) = (102 / 100 * (1 / 2 ^ 18 + 1 / 2 ^ 51)) * Y := by ring
+          have := mul_le_mul_of_nonneg_right (show (102 : ℝ) / 100 * (1 / 2 ^ 18 + 1 / 2 ^ 51) ≤ 1 / 2 ^ 17 by norm_num) hYpos.le
+          linarith
+        have t3 : t ^ 2 ≤ 1 / 2 ^ 74 := by
+          calc t ^ 2 ≤ (1 / 2 ^ 37) ^ 2 := pow_le_pow_left₀ ht0 t1 2
+            _ = 1 / 2 ^ 74 := by norm_num
+        have t4 : t ^ 2 ≤ 1 / 2 ^ 37 * (1 / 2 ^ 17 * Y) := by
+          rw [sq]; exact mul_le_mul t1 t2 ht0 (by norm_num)
+        calc t ^ 2 * t ^ 2 ≤ 1 / 2 ^ 74 * (1 / 2 ^ 37 * (1 / 2 ^ 17 * Y)) :=
+              mul_le_mul t3 t4 (sq_nonneg t) (by norm_num)
+          _ = (1 / 2 ^ 74 * (1 / 2 ^ 37) * (1 / 2 ^ 17)) * Y := by ring
+          _ ≤ 2 / 2 ^ 106 * Y := mul_le_mul_of_nonneg_right (by norm_num) hYpos.le
+    · have hbig : 1 / 2 ^ 20 ≤ |fval x.hi| := (not_le.1 hsm).le
+      have hY20 : 98 / 100 * (1 / 2 ^ 20) ≤ Y := by
+        have := mul_le_mul_of_nonneg_left hbig (by norm_num : (0 : ℝ) ≤ 98 / 100)
+        linarith
+      refine ⟨1 / 2 ^ 32 + 1 / 2 ^ 36, 1 / 2 ^ 31, by positivity, by norm_num, by norm_num, ?_, ?_, by norm_num, ?_, s1⟩
+      · have h2 : 98 / 100 * (1 / 2 ^ 20) / 2 ^ 10 ≤ Y / 2 ^ 10 := div_le_div_of_nonneg_right hY20 (by positivity)
+        linarith [show (1 : ℝ) / 2 ^ 31 ≤ 98 / 100 * (1 / 2 ^ 20) / 2 ^ 10 by norm_num]
+      · have : Y / 2 ^ 90 ≤ 1 / 254 / 2 ^ 90 := div_le_div_of_nonneg_right hYhi (by positivity)
+        linarith [show (1 : ℝ) / 254 / 2 ^ 90 ≤ 1 / 2 ^ 31 by norm_num]
+      · have : ((1 : ℝ) / 2 ^ 32 + 1 / 2 ^ 36) ^ 2 * (1 / 2 ^ 32 + 1 / 2 ^ 36) ^ 2
+            ≤ 2 / 2 ^ 106 * (98 / 100 * (1 / 2 ^ 20)) := by norm_num
+        have h2 : (2 : ℝ) / 2 ^ 106 * (98 / 100 * (1 / 2 ^ 20)) ≤ 2 / 2 ^ 106 * Y :=
+          mul_le_mul_of_nonneg_left hY20 (by positivity)
+        linarith
+  obtain ⟨η0, R, e0, e1, e2, eR1, eR2, eR3, e4, es⟩ := hseed
+  exact ⟨η0, R, e0, e1, e2, eR1, eR2, eR3, e4, ⟨sx, es⟩, hAround R eR1, hYhi, hY1⟩
+
+/-- **Property C15, `ln_1p` for `|x| ≤ 2^-8`** — PARTIAL only in the range (`2^-850 ≤ |x|` instead of `2^-1000 ≤ |x|`;
+`x = 0` is exact, `C15.ln_1p_zero`): valid result within relative `2^-100` of `ln(1 + v)`.  Below `2^-850` the proved
+bound of `TwoFloat / TwoFloat` on a tiny numerator (`C13c.div_tt_valid_any_numerator`) is too coarse. -/
+theorem ln_1p_bound_small_partial (x : TwoFloat) (hv : x.Valid) (hw : x.WF)
+    (hlo : 1 / 2 ^ 850 ≤ |val x|) (hhi : |val x| ≤ 1 / 2 ^ 8) :
+    (TwoFloat.ln_1p x).Valid ∧
+    |val (TwoFloat.ln_1p x) - Real.log (1 + val x)| ≤ |Real.log (1 + val x)| / 2 ^ 100 := by
+  obtain ⟨η0, R, e0, e1, e2, eR1, eR2, eR3, e4, hseed, hAround, hYhi, hY1⟩ := small_setup x hv hw
+    (le_trans (one_div_le_one_div_of_le (by positivity) (pow_le_pow_right₀ (by norm_num) (by norm_num))) hlo) hhi
+  obtain ⟨v1, v2⟩ := abs_le.1 hhi
+  have hVpos : 0 < |val x| := lt_of_lt_of_le (by positivity) hlo
+  have hV0 : val x ≠ 0 := abs_pos.1 hVpos
+  set Y := |Real.log (1 + val x)| with hYdef
+  have hYlo : 1 / 2 ^ 851 ≤ Y := by
+    have : (1 : ℝ) / 2 ^ 850 * (1 - 1 / 2 ^ 7) ≤ |val x| * (1 - 1 / 2 ^ 7) :=
+      mul_le_mul_of_nonneg_right hlo (by norm_num)
+    have e : (1 : ℝ) / 2 ^ 851 ≤ 1 / 2 ^ 850 * (1 - 1 / 2 ^ 7) := by
+      rw [show (851 : ℕ) = 850 + 1 from rfl, pow_succ]
+      have : (0 : ℝ) < 1 / 2 ^ 850 := by positivity
+      have e2 : (1 : ℝ) / (2 ^ 850 * 2) = 1 / 2 ^ 850 * (1 / 2) := by field_simp
+      rw [e2]; nlinarith
+    linarith
+  have hYpos : 0 < Y := lt_of_lt_of_le (by positivity) hYlo
+  obtain ⟨n1, n2⟩ := small_numeric hYlo hYhi e0 e1 e2 eR1 eR2 e4
+  have hR0 : 0 ≤ R := le_trans e0 e2
+  have hG0 : (0 : ℝ) ≤ (Y + R) * (1 + 1 / 128) := by positivity
+  have hκ : (54 : ℝ) / 2 ^ 106 * ((Y + R) * (1 + 1 / 128)) ≤ 1 / 2 ^ 40 := by
+    have : (Y + R) * (1 + 1 / 128) ≤ 1 * 2 := mul_le_mul (by linarith) (by norm_num) (by norm_num) (by norm_num)
+    have := mul_le_mul_of_nonneg_left this (by positivity : (0 : ℝ) ≤ 54 / 2 ^ 106)
+    linarith [show (54 : ℝ) / 2 ^ 106 * (1 * 2) ≤ 1 / 2 ^ 40 by norm_num]
+  obtain ⟨r1, r2⟩ := ln1p_two_steps (v := x) (η0 := η0) (R := R) (dM := 54 / 2 ^ 106)
+    (G := (Y + R) * (1 + 1 / 128)) ⟨hv, hw⟩ (by linarith [show (1 : ℝ) / 2 ^ 16 ≤ 1 - 1 / 2 ^ 8 by norm_num])
+    (le_trans v2 (le_trans (by norm_num) (one_le_pow₀ (by norm_num : (1 : ℝ) ≤ 2)))) hV0 eR3 (by positivity) hG0 hκ
+    hseed e2 hAround n1
+  exact ⟨r1.1, le_trans r2 n2⟩
+
+/-! ### 7. the other regimes -/
+
+/-- numerical closing with radius `2^-30`, seed accuracy `2^-31`, `κ ≤ K ≤ 2^-40`, `Y ≤ 700` -/
+theorem two_step_numeric {Y η0 κ K : ℝ} (hY0 : 0 ≤ Y) (hY1 : Y ≤ 700) (h0 : 0 ≤ η0) (h1 : η0 ≤ 1 / 2 ^ 31)
+    (hκ0 : 0 ≤ κ) (hκK : κ ≤ K) (hK : K ≤ 1 / 2 ^ 40) :
+    Bstep Y κ η0 ≤ 1 / 2 ^ 30 ∧
+    Bstep Y κ (Bstep Y κ η0) ≤ 10002 / 10000 * K + 1 / 2 ^ 118 + 4 / 2 ^ 106 * Y := by
+  have hK0 : 0 ≤ K := le_trans hκ0 hκK
+  have hca : cA * Y ≤ 4 / 2 ^ 106 * Y := mul_le_mul_of_nonneg_right cA_le hY0
+  have hcaY : cA * Y ≤ 4 / 2 ^ 106 * 700 := le_trans hca (mul_le_mul_of_nonneg_left hY1 (by positivity))
+  have hsq : η0 ^ 2 ≤ 1 / 2 ^ 62 := by
+    calc η0 ^ 2 ≤ (1 / 2 ^ 31) ^ 2 := pow_le_pow_left₀ h0 h1 2
+      _ = 1 / 2 ^ 62 := by norm_num
+  have h968 : (1 : ℝ) / 2 ^ 968 ≤ 1 / 2 ^ 200 :=
+    one_div_le_one_div_of_le (by positivity) (pow_le_pow_right₀ (by norm_num) (by norm_num))
+  have hB1 := Bstep_le (Y := Y) (κ := κ) h0 hκ0
+  set β := 1 / 2 ^ 60 + 2 * K with hβ
+  have hβ0 : 0 ≤ β := by rw [hβ]; positivity
+  have hB1β : Bstep Y κ η0 ≤ β := by
+    refine le_trans hB1 ?_
+    rw [hβ]
+    have n : (10001 : ℝ) / 10000 * (1 / 2 ^ 62) + 1 / 2 ^ 100 * (1 / 2 ^ 31) + 1 / 2 ^ 200 + 4 / 2 ^ 106 * 700 ≤ 1 / 2 ^ 60 := by
+      norm_num
+    have m1 := mul_le_mul_of_nonneg_left hsq (by norm_num : (0 : ℝ) ≤ 10001 / 10000)
+    have m2 := mul_le_mul_of_nonneg_left hκK (by norm_num : (0 : ℝ) ≤ 10001 / 10000)
+    have m3 := mul_le_mul_of_nonneg_left h1 (by norm_num : (0 : ℝ) ≤ 1 / 2 ^ 100)
+    linarith
+  have hβR : β ≤ 1 / 2 ^ 30 := by
+    rw [hβ]; linarith [show (1 : ℝ) / 2 ^ 60 + 2 * (1 / 2 ^ 40) ≤ 1 / 2 ^ 30 by norm_num]
+  refine ⟨le_trans hB1β hβR, ?_⟩
+  have hB10 := Bstep_nonneg (Y := Y) (κ := κ) (η := η0) hY0 hκ0 h0
+  refine le_trans (Bstep_mono hB10 hB1β) (le_trans (Bstep_le hβ0 hκ0) ?_)
+  have hβsq : β ^ 2 ≤ 1 / 2 ^ 119 + 1 / 2 ^ 37 * K := by
+    have e1 : β ^ 2 ≤ 2 * (1 / 2 ^ 60) ^ 2 + 2 * (2 * K) ^ 2 := by
+      rw [hβ]; nlinarith [sq_nonneg (1 / 2 ^ 60 - 2 * K)]
+    have e2 : 2 * (2 * K) ^ 2 = (8 * K) * K := by ring
+    have e3 : (8 * K) * K ≤ (8 * (1 / 2 ^ 40)) * K := mul_le_mul_of_nonneg_right (by linarith) hK0
+    have e4 : (2 : ℝ) * (1 / 2 ^ 60) ^ 2 = 1 / 2 ^ 119 := by norm_num
+    have e5 : (8 : ℝ) * (1 / 2 ^ 40) = 1 / 2 ^ 37 := by norm_num
+    rw [e2, e4] at e1; rw [e5] at e3
+    linarith
+  have m1 := mul_le_mul_of_nonneg_left hβsq (by norm_num : (0 : ℝ) ≤ 10001 / 10000)
+  have m2 := mul_le_mul_of_nonneg_left hκK (by norm_num : (0 : ℝ) ≤ 10001 / 10000)
+  have e6 : (1 : ℝ) / 2 ^ 100 * β = 1 / 2 ^ 160 + 1 / 2 ^ 99 * K := by
+    rw [hβ]
+    have : (1 : ℝ) / 2 ^ 100 * (1 / 2 ^ 60) = 1 / 2 ^ 160 := by rw [one_div_mul_one_div, ← pow_add]
+    have h2 : (1 : ℝ) / 2 ^ 100 * (2 * K) = 1 / 2 ^ 99 * K := by
+      rw [show (100 : ℕ) = 99 + 1 from rfl, pow_succ]; field_simp
+    rw [mul_add, this, h2]
+  rw [e6]
+  have n1 : (10001 : ℝ) / 10000 * (1 / 2 ^ 119) + 1 / 2 ^ 160 + 1 / 2 ^ 200 ≤ 1 / 2 ^ 118 := by norm_num
+  have n2 : (10001 : ℝ) / 10000 * (1 / 2 ^ 37 * K) + 10001 / 10000 * K + 1 / 2 ^ 99 * K ≤ 10002 / 10000 * K := by
+    have : (10001 : ℝ) / 10000 * (1 / 2 ^ 37 * K) + 10001 / 10000 * K + 1 / 2 ^ 99 * K
+        = (10001 / 10000 * (1 / 2 ^ 37) + 10001 / 10000 + 1 / 2 ^ 99) * K := by ring
+    rw [this]; exact mul_le_mul_of_nonneg_right (by norm_num) hK0
+  linarith
+
+theorem hHi_le : ExpBound.hHi ≤ (164873 : ℚ) / 100000 := by decide +kernel
+
+/-- `ln(1 + V) ≥ 0.55` for `V ≥ 0.75` -/
+theorem log_ge_of_three_quarters {V : ℝ} (h : 3 / 4 ≤ V) : 11 / 20 ≤ Real.log (1 + V) := by
+  have hpos : (0 : ℝ) < 1 + V := by linarith
+  rw [Real.le_log_iff_exp_le hpos]
+  have e : (11 : ℝ) / 20 = 1 / 2 + 1 / 20 := by norm_num
+  rw [e, Real.exp_add]
+  obtain ⟨-, c2⟩ := ExpBound.exp_half_encl
+  have c2' : Real.exp (1 / 2) ≤ 164873 / 100000 := by
+    have := (Rat.cast_le (K := ℝ)).2 hHi_le
+    push_cast at this; linarith
+  have h20 := Real.abs_exp_sub_one_sub_id_le (x := 1 / 20) (by rw [abs_of_pos] <;> norm_num)
+  have h20' : Real.exp (1 / 20) ≤ 1 + 1 / 20 + (1 / 20) ^ 2 := by linarith [(abs_le.1 h20).2]
+  have hp := Real.exp_pos (1 / 2 : ℝ)
+  have hq := Real.exp_pos (1 / 20 : ℝ)
+  calc Real.exp (1 / 2) * Real.exp (1 / 20) ≤ 164873 / 100000 * (1 + 1 / 20 + (1 / 20) ^ 2) :=
+        mul_le_mul c2' h20' hq.le (by norm_num)
+    _ ≤ 1 + V := by norm_num; linarith
+
+/-- `ln a ≤ 668` for `a ≤ 2^962` -/
+theorem log_le_668 {a : ℝ} (ha : 0 < a) (h : a ≤ 2 ^ 962) : Real.log a ≤ 668 := by
+  obtain ⟨l1, l2⟩ := Log2Bound.log_two_range
+  have u := Real.log_le_log ha h
+  rw [Real.log_pow] at u
+  push_cast at u
+  nlinarith
+
+/-- **Property C15, `ln_1p` for `x ≥ 0.75`** (high word up to `2^960`): valid result within relative `2^-100` of
+`ln(1 + v)` -/
+theorem ln_1p_bound_outer (x : TwoFloat) (hv : x.Valid) (hw : x.WF)
+    (hlo : 3 / 4 ≤ val x) (hhi : fval x.hi ≤ 2 ^ 960) :
+    (TwoFloat.ln_1p x).Valid ∧
+    |val (TwoFloat.ln_1p x) - Real.log (1 + val x)| ≤ |Real.log (1 + val x)| / 2 ^ 100 := by
+  obtain ⟨hH1, hH2⟩ := hi_vs_val hv
+  have hVpos : 0 < val x := by linarith
+  have hHpos : 0 < fval x.hi := by
+    by_contra hc
+    obtain ⟨e, hl⟩ := lo_small hv
+    have h1 : fval x.hi ≤ 0 := not_lt.1 hc
+    have h2 := (abs_le.1 hl).2
+    rw [abs_of_nonpos h1] at h2
+    have h3 : -fval x.hi / 2 ^ 53 ≤ -fval x.hi := div_le_self (by linarith) (by norm_num)
+    have : val x ≤ 0 := by rw [e]; linarith
+    linarith
+  rw [abs_of_pos hVpos, abs_of_pos hHpos] at hH1 hH2
+  have hV961 : val x ≤ 2 ^ 961 := by
+    have : fval x.hi * (1 + 1 / 2 ^ 53) ≤ 2 ^ 960 * 2 := mul_le_mul hhi (by norm_num) (by norm_num) (by positivity)
+    have e : (2 : ℝ) ^ 961 = 2 ^ 960 * 2 := by rw [pow_succ]
+    linarith
+  have hH34 : 7 / 10 ≤ fval x.hi := by
+    have : val x ≤ fval x.hi * (1 + 1 / 2 ^ 53) := hH2
+    nlinarith
+  have hy1 := log_ge_of_three_quarters hlo
+  have hy2 : Real.log (1 + val x) ≤ 668 := log_le_668 (by linarith) (by
+    have e : (2 : ℝ) ^ 962 = 2 ^ 961 * 2 := by rw [pow_succ]
+    have : (1 : ℝ) ≤ 2 ^ 961 := one_le_pow₀ (by norm_num)
+    linarith)
+  set y := Real.log (1 + val x) with hydef
+  have hYabs : |y| = y := abs_of_pos (by linarith)
+  obtain ⟨sx, s1, -⟩ := seed_err ⟨hv, hw⟩ (by linarith [show (1 : ℝ) / 2 ^ 16 ≤ 1 by norm_num])
+    (le_trans hhi (pow_le_pow_right₀ (by norm_num) (by norm_num)))
+  -- exp_m1 around y
+  have hAround : Around y (1 / 2 ^ 30) (1 / 2 ^ 100) (9 / 10 * (y + 1 / 2 ^ 30)) := by
+    intro z hz hzy
+    obtain ⟨z1, z2⟩ := abs_le.1 hzy
+    have hzlo : 27 / 50 ≤ val z := by linarith [show (1 : ℝ) / 2 ^ 30 ≤ 1 / 100 by norm_num]
+    have hzhi : val z ≤ 700 := by linarith [show (1 : ℝ) / 2 ^ 30 ≤ 1 by norm_num]
+    obtain ⟨-, ht⟩ := em1_any hz (by linarith) hzhi (by
+      rw [abs_of_pos (by linarith)]
+      refine le_trans ?_ hzlo
+      calc (1 : ℝ) / 2 ^ 950 ≤ 1 / 2 ^ 1 :=
+            one_div_le_one_div_of_le (by norm_num) (pow_le_pow_right₀ (by norm_num) (by norm_num))
+        _ ≤ 27 / 50 := by norm_num)
+    refine ⟨ht (Or.inr (by linarith)), le_trans (g_outer hzlo) ?_⟩
+    apply mul_le_mul_of_nonneg_right _ (Real.exp_pos _).le
+    linarith
+  have hK : (1 : ℝ) / 2 ^ 100 * (9 / 10 * (y + 1 / 2 ^ 30)) ≤ 1 / 2 ^ 40 := by
+    have : 9 / 10 * (y + 1 / 2 ^ 30) ≤ 9 / 10 * (668 + 1) := mul_le_mul_of_nonneg_left (by linarith [show (1 : ℝ) / 2 ^ 30 ≤ 1 by norm_num]) (by norm_num)
+    have := mul_le_mul_of_nonneg_left this (by positivity : (0 : ℝ) ≤ 1 / 2 ^ 100)
+    linarith [show (1 : ℝ) / 2 ^ 100 * (9 / 10 * (668 + 1)) ≤ 1 / 2 ^ 40 by norm_num]
+  have hG0 : (0 : ℝ) ≤ 9 / 10 * (y + 1 / 2 ^ 30) := by positivity
+  set κ := 1 / 2 ^ 100 * (9 / 10 * (y + 1 / 2 ^ 30)) * (1 + 1 / 2 ^ 18) with hκ
+  have hκ0 : 0 ≤ κ := by rw [hκ]; positivity
+  have hκ40 : κ ≤ 1 / 2 ^ 40 := by
+    rw [hκ]
+    have h1 : (1 : ℝ) / 2 ^ 100 * (9 / 10 * (y + 1 / 2 ^ 30)) ≤ 1 / 2 ^ 100 * (9 / 10 * (668 + 1)) := by
+      apply mul_le_mul_of_nonneg_left _ (by positivity)
+      apply mul_le_mul_of_nonneg_left _ (by norm_num)
+      linarith [show (1 : ℝ) / 2 ^ 30 ≤ 1 by norm_num]
+    have := mul_le_mul_of_nonneg_right h1 (by norm_num : (0 : ℝ) ≤ 1 + 1 / 2 ^ 18)
+    linarith [show (1 : ℝ) / 2 ^ 100 * (9 / 10 * (668 + 1)) * (1 + 1 / 2 ^ 18) ≤ 1 / 2 ^ 40 by norm_num]
+  obtain ⟨n1, n2⟩ := two_step_numeric (Y := |y|) (η0 := 1 / 2 ^ 32 + 1 / 2 ^ 36) (κ := κ) (K := κ)
+    (abs_nonneg _) (by rw [hYabs]; linarith) (by positivity) (by norm_num) hκ0 le_rfl hκ40
+  obtain ⟨r1, r2⟩ := ln1p_two_steps (v := x) (η0 := 1 / 2 ^ 32 + 1 / 2 ^ 36) (R := 1 / 2 ^ 30) (dM := 1 / 2 ^ 100)
+    (G := 9 / 10 * (y + 1 / 2 ^ 30)) ⟨hv, hw⟩ (by linarith [show (1 : ℝ) / 2 ^ 16 ≤ 1 by norm_num]) hV961 hVpos.ne'
+    (by norm_num) (by positivity) hG0 hK ⟨sx, s1⟩ (by norm_num) hAround n1
+  refine ⟨r1.1, le_trans r2 (le_trans n2 ?_)⟩
+  rw [hYabs, hκ]
+  have e : y / 2 ^ 100 = 64 / 2 ^ 106 * y := by
+    rw [show (106 : ℕ) = 100 + 6 from rfl, pow_add]; field_simp; ring
+  rw [e]
+  have e2 : 10002 / 10000 * (1 / 2 ^ 100 * (9 / 10 * (y + 1 / 2 ^ 30)) * (1 + 1 / 2 ^ 18))
+      = (10002 / 10000 * (64 * (9 / 10)) * (1 + 1 / 2 ^ 18)) / 2 ^ 106 * y
+        + (10002 / 10000 * (64 * (9 / 10)) * (1 + 1 / 2 ^ 18)) / 2 ^ 106 * (1 / 2 ^ 30) := by
+    rw [show (106 : ℕ) = 100 + 6 from rfl, pow_add]; field_simp; ring
+  rw [e2]
+  have c1 : (10002 / 10000 * (64 * (9 / 10)) * (1 + 1 / 2 ^ 18)) / 2 ^ 106 * y ≤ 5762 / 100 / 2 ^ 106 * y := by
+    apply mul_le_mul_of_nonneg_right _ (by linarith)
+    norm_num
+  have c2 : (10002 / 10000 * (64 * (9 / 10)) * (1 + 1 / 2 ^ 18)) / 2 ^ 106 * (1 / 2 ^ 30) + 1 / 2 ^ 118
+      ≤ 1 / 100 / 2 ^ 106 * (11 / 20) := by norm_num
+  have c3 : (1 : ℝ) / 100 / 2 ^ 106 * (11 / 20) ≤ 1 / 100 / 2 ^ 106 * y := mul_le_mul_of_nonneg_left hy1 (by positivity)
+  have e3 : (64 : ℝ) / 2 ^ 106 * y = 5762 / 100 / 2 ^ 106 * y + 1 / 100 / 2 ^ 106 * y + 4 / 2 ^ 106 * y
+      + (64 - 5762 / 100 - 1 / 100 - 4) / 2 ^ 106 * y := by ring
+  have c4 : 0 ≤ ((64 : ℝ) - 5762 / 100 - 1 / 100 - 4) / 2 ^ 106 * y := mul_nonneg (by norm_num) (by linarith)
+  linarith
+
+
+/-- the high word from the value, both directions, without absolute values -/
+theorem hi_near {v : TwoFloat} (hv : v.Valid) : |fval v.hi - val v| ≤ |val v| / 2 ^ 52 := by
+  obtain ⟨e, hl⟩ := lo_small hv
+  obtain ⟨h1, -⟩ := hi_vs_val hv
+  have : fval v.hi - val v = -fval v.lo := by rw [e]; ring
+  rw [this, abs_neg]
+  refine le_trans hl ?_
+  have : |fval v.hi| / 2 ^ 53 ≤ |val v| * (1 + 1 / 2 ^ 52) / 2 ^ 53 := div_le_div_of_nonneg_right h1 (by positivity)
+  have e2 : |val v| * (1 + 1 / 2 ^ 52) / 2 ^ 53 = |val v| / 2 ^ 52 * ((1 + 1 / 2 ^ 52) / 2) := by
+    rw [show (53 : ℕ) = 52 + 1 from rfl, pow_succ]; field_simp
+  have h3 : |val v| / 2 ^ 52 * ((1 + 1 / 2 ^ 52) / 2) ≤ |val v| / 2 ^ 52 * 1 :=
+    mul_le_mul_of_nonneg_left (by norm_num) (by positivity)
+  linarith
+
+/-- **Property C15, `ln_1p` for `2^-8 ≤ x ≤ 0.75`**: valid result within relative `2^-45` of `ln(1 + v)` -/
+theorem ln_1p_bound_mid_pos (x : TwoFloat) (hv : x.Valid) (hw : x.WF)
+    (hlo : 1 / 2 ^ 8 ≤ val x) (hhi : val x ≤ 3 / 4) :
+    (TwoFloat.ln_1p x).Valid ∧
+    |val (TwoFloat.ln_1p x) - Real.log (1 + val x)| ≤ |Real.log (1 + val x)| / 2 ^ 45 := by
+  have hVpos : 0 < val x := lt_of_lt_of_le (by positivity) hlo
+  have hn := hi_near hv
+  rw [abs_of_pos hVpos] at hn
+  obtain ⟨n1, n2⟩ := abs_le.1 hn
+  have hH1 : -(1 / 2) ≤ fval x.hi := by
+    have : val x / 2 ^ 52 ≤ val x := div_le_self hVpos.le (by norm_num)
+    linarith
+  have hH2 : fval x.hi ≤ 2 := by
+    have : val x / 2 ^ 52 ≤ val x := div_le_self hVpos.le (by norm_num)
+    linarith
+  -- y = ln(1+V) ∈ [V·4/7, V]
+  have ha : 0 < 1 + val x := by linarith
+  have hy2 : Real.log (1 + val x) ≤ val x := by
+    have := Real.log_le_sub_one_of_pos ha; linarith
+  have hy1 : 1 / 500 ≤ Real.log (1 + val x) := by
+    have := Real.one_sub_inv_le_log_of_pos ha
+    have e : 1 - (1 + val x)⁻¹ = val x / (1 + val x) := by field_simp; ring
+    rw [e] at this
+    have : 1 / 500 ≤ val x / (1 + val x) := by
+      rw [le_div_iff₀ ha]
+      have : (1 : ℝ) / 2 ^ 8 = 1 / 256 := by norm_num
+      nlinarith
+    linarith
+  set y := Real.log (1 + val x) with hydef
+  have hYabs : |y| = y := abs_of_pos (by linarith)
+  obtain ⟨sx, s1, -⟩ := seed_err ⟨hv, hw⟩ (by linarith [show (1 : ℝ) / 2 ^ 16 ≤ 1 / 2 by norm_num])
+    (le_trans hH2 (le_trans (by norm_num) (pow_le_pow_right₀ (by norm_num : (1 : ℝ) ≤ 2) (by norm_num : 1 ≤ 999))))
+  have hAround : Around y (1 / 2 ^ 30) (1 / 2 ^ 45) ((y + 1 / 2 ^ 30) * (1 - 3 / 10 * (y - 1 / 2 ^ 30))) := by
+    intro z hz hzy
+    obtain ⟨z1, z2⟩ := abs_le.1 hzy
+    have hR : (1 : ℝ) / 2 ^ 30 ≤ 1 / 1000 := by norm_num
+    have hzlo : 1 / 1000 ≤ val z := by linarith
+    have hzhi : val z ≤ 9 / 10 := by linarith
+    obtain ⟨ht, -⟩ := em1_any hz (by linarith) (by linarith) (by
+      rw [abs_of_pos (by linarith)]
+      refine le_trans ?_ hzlo
+      calc (1 : ℝ) / 2 ^ 950 ≤ 1 / 2 ^ 10 :=
+            one_div_le_one_div_of_le (by norm_num) (pow_le_pow_right₀ (by norm_num) (by norm_num))
+        _ ≤ 1 / 1000 := by norm_num)
+    refine ⟨ht, le_trans (g_pos_mid (by linarith) hzhi) ?_⟩
+    apply mul_le_mul_of_nonneg_right _ (Real.exp_pos _).le
+    apply mul_le_mul (by linarith) (by linarith) (by linarith) (by linarith)
+  set G := (y + 1 / 2 ^ 30) * (1 - 3 / 10 * (y - 1 / 2 ^ 30)) with hG
+  have hG0 : 0 ≤ G := by
+    rw [hG]; apply mul_nonneg (by linarith [show (0 : ℝ) ≤ 1 / 2 ^ 30 by positivity])
+    linarith [show (1 : ℝ) / 2 ^ 30 ≤ 1 / 1000 by norm_num]
+  have hGle : G ≤ 9995 / 10000 * y := by
+    rw [hG]
+    have hR : (1 : ℝ) / 2 ^ 30 ≤ 1 / 2 ^ 21 * y := by
+      have : (1 : ℝ) / 2 ^ 21 * (1 / 500) ≤ 1 / 2 ^ 21 * y := mul_le_mul_of_nonneg_left hy1 (by positivity)
+      linarith [show (1 : ℝ) / 2 ^ 30 ≤ 1 / 2 ^ 21 * (1 / 500) by norm_num]
+    have hR0 : (0 : ℝ) ≤ 1 / 2 ^ 30 := by positivity
+    nlinarith
+  set κ := 1 / 2 ^ 45 * G * (1 + 1 / 2 ^ 18) with hκ
+  have hκ0 : 0 ≤ κ := by rw [hκ]; positivity
+  have hκK : κ ≤ 9996 / 10000 * y / 2 ^ 45 := by
+    rw [hκ]
+    have h1 : 1 / 2 ^ 45 * G * (1 + 1 / 2 ^ 18) ≤ 1 / 2 ^ 45 * (9995 / 10000 * y) * (1 + 1 / 2 ^ 18) := by
+      apply mul_le_mul_of_nonneg_right _ (by norm_num)
+      exact mul_le_mul_of_nonneg_left hGle (by positivity)
+    have e : 1 / 2 ^ 45 * (9995 / 10000 * y) * (1 + 1 / 2 ^ 18) = (9995 / 10000 * (1 + 1 / 2 ^ 18)) * y / 2 ^ 45 := by ring
+    have h2 : (9995 / 10000 * (1 + 1 / 2 ^ 18)) * y / 2 ^ 45 ≤ 9996 / 10000 * y / 2 ^ 45 := by
+      apply div_le_div_of_nonneg_right _ (by positivity)
+      exact mul_le_mul_of_nonneg_right (by norm_num) (by linarith)
+    linarith
+  have hK40 : 9996 / 10000 * y / 2 ^ 45 ≤ 1 / 2 ^ 40 := by
+    rw [div_le_iff₀ (by positivity)]; norm_num; linarith
+  have hdMG : (1 : ℝ) / 2 ^ 45 * G ≤ 1 / 2 ^ 40 := by
+    have : G ≤ 1 := by linarith
+    have := mul_le_mul_of_nonneg_left this (by positivity : (0 : ℝ) ≤ 1 / 2 ^ 45)
+    linarith [show (1 : ℝ) / 2 ^ 45 * 1 ≤ 1 / 2 ^ 40 by norm_num]
+  obtain ⟨m1, m2⟩ := two_step_numeric (Y := |y|) (η0 := 1 / 2 ^ 32 + 1 / 2 ^ 36) (κ := κ)
+    (K := 9996 / 10000 * y / 2 ^ 45) (abs_nonneg _) (by rw [hYabs]; linarith) (by positivity) (by norm_num) hκ0 hκK hK40
+  obtain ⟨r1, r2⟩ := ln1p_two_steps (v := x) (η0 := 1 / 2 ^ 32 + 1 / 2 ^ 36) (R := 1 / 2 ^ 30) (dM := 1 / 2 ^ 45)
+    (G := G) ⟨hv, hw⟩ (by linarith [show (1 : ℝ) / 2 ^ 16 ≤ 1 by norm_num])
+    (le_trans hhi (le_trans (by norm_num) (one_le_pow₀ (by norm_num : (1 : ℝ) ≤ 2)))) hVpos.ne'
+    (by norm_num) (by positivity) hG0 hdMG ⟨sx, s1⟩ (by norm_num) hAround m1
+  refine ⟨r1.1, le_trans r2 (le_trans m2 ?_)⟩
+  rw [hYabs]
+  have e : y / 2 ^ 45 = 10002 / 10000 * (9996 / 10000 * y / 2 ^ 45)
+      + (1 - 10002 / 10000 * (9996 / 10000)) * y / 2 ^ 45 := by ring
+  have c1 : (1 : ℝ) / 2 ^ 118 + 4 / 2 ^ 106 * y ≤ (1 - 10002 / 10000 * (9996 / 10000)) * y / 2 ^ 45 := by
+    rw [le_div_iff₀ (by positivity)]
+    have : ((1 : ℝ) / 2 ^ 118 + 4 / 2 ^ 106 * y) * 2 ^ 45 = 1 / 2 ^ 73 + 4 / 2 ^ 61 * y := by
+      rw [show (118 : ℕ) = 73 + 45 from rfl, show (106 : ℕ) = 61 + 45 from rfl, pow_add, pow_add]; field_simp
+    rw [this]
+    nlinarith
+  linarith
+
+
+theorem log_049 : -(7137 / 10000) ≤ Real.log (49 / 100) ∧ Real.log (49 / 100) ≤ -(7131 / 10000) := by
+  have l1 := Real.log_two_gt_d9
+  have l2 := Real.log_two_lt_d9
+  have e : (49 : ℝ) / 100 = (98 / 100) / 2 := by norm_num
+  rw [e, Real.log_div (by norm_num) (by norm_num)]
+  have u1 := Real.log_le_sub_one_of_pos (show (0 : ℝ) < 98 / 100 by norm_num)
+  have u2 := Real.one_sub_inv_le_log_of_pos (show (0 : ℝ) < 98 / 100 by norm_num)
+  norm_num at u1 u2
+  constructor <;> linarith
+
+/-- **Property C15, `ln_1p` for `−0.51 ≤ x ≤ −2^-8`** — PARTIAL: relative `2^-44` instead of `2^-45` (the `2^-45` of
+`C14f.exp_m1_bound_mid` enters multiplied by `(e^|x| − 1)/|x| ≤ 1.72`; the Taylor analysis of `exp_m1` actually gives
+`2^-46.9`, which would close the gap) -/
+theorem ln_1p_bound_mid_neg_partial (x : TwoFloat) (hv : x.Valid) (hw : x.WF)
+    (hlo : -(51 / 100) ≤ val x) (hhi : val x ≤ -(1 / 2 ^ 8)) :
+    (TwoFloat.ln_1p x).Valid ∧
+    |val (TwoFloat.ln_1p x) - Real.log (1 + val x)| ≤ |Real.log (1 + val x)| / 2 ^ 44 := by
+  have hVneg : val x < 0 := lt_of_le_of_lt hhi (by norm_num)
+  have hn := hi_near hv
+  rw [abs_of_neg hVneg] at hn
+  obtain ⟨n1, n2⟩ := abs_le.1 hn
+  have hsm : -val x / 2 ^ 52 ≤ 1 / 100 := by
+    rw [div_le_iff₀ (by positivity)]; norm_num; linarith
+  have ha : 0 < 1 + val x := by linarith
+  have hy2 : Real.log (1 + val x) ≤ val x := by
+    have := Real.log_le_sub_one_of_pos ha; linarith
+  have hy1 : -(7137 / 10000) ≤ Real.log (1 + val x) :=
+    le_trans log_049.1 (Real.log_le_log (by norm_num) (by linarith))
+  set y := Real.log (1 + val x) with hydef
+  have hyneg : y < 0 := by linarith
+  have hYabs : |y| = -y := abs_of_neg hyneg
+  obtain ⟨sx, s1, -⟩ := seed_err ⟨hv, hw⟩ (by linarith [show (1 : ℝ) / 2 ^ 16 ≤ 1 / 4 by norm_num])
+    (le_trans (by linarith : fval x.hi ≤ 1) (one_le_pow₀ (by norm_num : (1 : ℝ) ≤ 2)))
+  have hR : (1 : ℝ) / 2 ^ 30 ≤ 1 / 2 ^ 9 := by norm_num
+  have hY8 : 1 / 2 ^ 8 ≤ -y := by linarith
+  have hAround : Around y (1 / 2 ^ 30) (1 / 2 ^ 45) ((-y + 1 / 2 ^ 30) * (1 + (-y + 1 / 2 ^ 30))) := by
+    intro z hz hzy
+    obtain ⟨z1, z2⟩ := abs_le.1 hzy
+    have hzneg : val z < 0 := by linarith [show (1 : ℝ) / 2 ^ 30 < 1 / 2 ^ 8 by norm_num]
+    have hzabs : |val z| ≤ -y + 1 / 2 ^ 30 := by rw [abs_of_neg hzneg]; linarith
+    have hzlo : 1 / 2 ^ 9 ≤ |val z| := by
+      rw [abs_of_neg hzneg]
+      linarith [show (1 : ℝ) / 2 ^ 8 - 1 / 2 ^ 30 ≥ 1 / 2 ^ 9 by norm_num]
+    obtain ⟨ht, -⟩ := em1_any hz (by linarith) (by linarith) (le_trans
+      (one_div_le_one_div_of_le (by norm_num) (pow_le_pow_right₀ (by norm_num) (by norm_num))) hzlo)
+    refine ⟨ht, le_trans (g_abs (le_trans hzabs (by linarith))) ?_⟩
+    apply mul_le_mul_of_nonneg_right _ (Real.exp_pos _).le
+    exact mul_le_mul hzabs (by linarith) (by positivity) (le_trans (abs_nonneg _) hzabs)
+  set G := (-y + 1 / 2 ^ 30) * (1 + (-y + 1 / 2 ^ 30)) with hG
+  have hG0 : 0 ≤ G := by rw [hG]; apply mul_nonneg <;> linarith
+  have hGle : G ≤ 172 / 100 * (-y) := by
+    rw [hG]
+    have hR2 : (1 : ℝ) / 2 ^ 30 ≤ 1 / 2 ^ 22 * (-y) := by
+      have : (1 : ℝ) / 2 ^ 22 * (1 / 2 ^ 8) ≤ 1 / 2 ^ 22 * (-y) := mul_le_mul_of_nonneg_left hY8 (by positivity)
+      linarith [show (1 : ℝ) / 2 ^ 30 ≤ 1 / 2 ^ 22 * (1 / 2 ^ 8) by norm_num]
+    have hR0 : (0 : ℝ) ≤ 1 / 2 ^ 30 := by positivity
+    nlinarith
+  set κ := 1 / 2 ^ 45 * G * (1 + 1 / 2 ^ 18) with hκ
+  have hκ0 : 0 ≤ κ := by rw [hκ]; positivity
+  have hκK : κ ≤ 173 / 100 * (-y) / 2 ^ 45 := by
+    rw [hκ]
+    have h1 : 1 / 2 ^ 45 * G * (1 + 1 / 2 ^ 18) ≤ 1 / 2 ^ 45 * (172 / 100 * (-y)) * (1 + 1 / 2 ^ 18) := by
+      apply mul_le_mul_of_nonneg_right _ (by norm_num)
+      exact mul_le_mul_of_nonneg_left hGle (by positivity)
+    have e : 1 / 2 ^ 45 * (172 / 100 * (-y)) * (1 + 1 / 2 ^ 18) = (172 / 100 * (1 + 1 / 2 ^ 18)) * (-y) / 2 ^ 45 := by ring
+    have h2 : (172 / 100 * (1 + 1 / 2 ^ 18)) * (-y) / 2 ^ 45 ≤ 173 / 100 * (-y) / 2 ^ 45 := by
+      apply div_le_div_of_nonneg_right _ (by positivity)
+      exact mul_le_mul_of_nonneg_right (by norm_num) (by linarith)
+    linarith
+  have hK40 : 173 / 100 * (-y) / 2 ^ 45 ≤ 1 / 2 ^ 40 := by
+    rw [div_le_iff₀ (by positivity)]; norm_num; linarith
+  have hdMG : (1 : ℝ) / 2 ^ 45 * G ≤ 1 / 2 ^ 40 := by
+    have : G ≤ 2 := by linarith
+    have := mul_le_mul_of_nonneg_left this (by positivity : (0 : ℝ) ≤ 1 / 2 ^ 45)
+    linarith [show (1 : ℝ) / 2 ^ 45 * 2 ≤ 1 / 2 ^ 40 by norm_num]
+  obtain ⟨m1, m2⟩ := two_step_numeric (Y := |y|) (η0 := 1 / 2 ^ 32 + 1 / 2 ^ 36) (κ := κ)
+    (K := 173 / 100 * (-y) / 2 ^ 45) (abs_nonneg _) (by rw [hYabs]; linarith) (by positivity) (by norm_num) hκ0 hκK hK40
+  obtain ⟨r1, r2⟩ := ln1p_two_steps (v := x) (η0 := 1 / 2 ^ 32 + 1 / 2 ^ 36) (R := 1 / 2 ^ 30) (dM := 1 / 2 ^ 45)
+    (G := G) ⟨hv, hw⟩ (by linarith [show (1 : ℝ) / 2 ^ 16 ≤ 1 / 4 by norm_num])
+    (le_trans (by linarith : val x ≤ 1) (one_le_pow₀ (by norm_num : (1 : ℝ) ≤ 2))) hVneg.ne
+    (by norm_num) (by positivity) hG0 hdMG ⟨sx, s1⟩ (by norm_num) hAround m1
+  refine ⟨r1.1, le_trans r2 (le_trans m2 ?_)⟩
+  rw [hYabs]
+  have e : -y / 2 ^ 44 = 10002 / 10000 * (173 / 100 * (-y) / 2 ^ 45)
+      + (2 - 10002 / 10000 * (173 / 100)) * (-y) / 2 ^ 45 := by
+    rw [show (45 : ℕ) = 44 + 1 from rfl, pow_succ]; field_simp; ring
+  have c1 : (1 : ℝ) / 2 ^ 118 + 4 / 2 ^ 106 * (-y) ≤ (2 - 10002 / 10000 * (173 / 100)) * (-y) / 2 ^ 45 := by
+    rw [le_div_iff₀ (by positivity)]
+    have : ((1 : ℝ) / 2 ^ 118 + 4 / 2 ^ 106 * (-y)) * 2 ^ 45 = 1 / 2 ^ 73 + 4 / 2 ^ 61 * (-y) := by
+      rw [show (118 : ℕ) = 73 + 45 from rfl, show (106 : ℕ) = 61 + 45 from rfl, pow_add, pow_add]; field_simp
+    rw [this]
+    nlinarith
+  linarith
+
+/-- **Property C15, `ln_1p` for `−1 + 2^-15 ≤ x ≤ −0.51`**: valid result within relative `2^-80` of `ln(1 + v)` (the
+property asks for `2^-45`; closer to `−1` the floor FAILS in the model, see `ln_1p_floor_violated`) -/
+theorem ln_1p_bound_near_minus_one (x : TwoFloat) (hv : x.Valid) (hw : x.WF)
+    (hlo : -1 + 1 / 2 ^ 15 ≤ val x) (hhi : val x ≤ -(51 / 100)) :
+    (TwoFloat.ln_1p x).Valid ∧
+    |val (TwoFloat.ln_1p x) - Real.log (1 + val x)| ≤ |Real.log (1 + val x)| / 2 ^ 80 := by
+  have hVneg : val x < 0 := lt_of_le_of_lt hhi (by norm_num)
+  have hn := hi_near hv
+  rw [abs_of_neg hVneg] at hn
+  obtain ⟨n1, n2⟩ := abs_le.1 hn
+  have hsm : -val x / 2 ^ 52 ≤ 1 / 2 ^ 52 := by
+    apply div_le_div_of_nonneg_right _ (by positivity)
+    linarith [show (0 : ℝ) < 1 / 2 ^ 15 by positivity]
+  have h15 : (0 : ℝ) < 1 / 2 ^ 15 := by positivity
+  have ha : 0 < 1 + val x := by linarith
+  have ha15 : 1 / 2 ^ 15 ≤ 1 + val x := by linarith
+  have hy2 : Real.log (1 + val x) ≤ -(7131 / 10000) :=
+    le_trans (Real.log_le_log ha (by linarith)) log_049.2
+  have hy1 : -11 ≤ Real.log (1 + val x) := by
+    have d := Real.log_le_log (by positivity) ha15
+    rw [one_div, Real.log_inv, Real.log_pow] at d
+    have l2 := Real.log_two_lt_d9
+    push_cast at d
+    linarith
+  set y := Real.log (1 + val x) with hydef
+  have hyneg : y < 0 := by linarith
+  have hYabs : |y| = -y := abs_of_neg hyneg
+  obtain ⟨sx, s1, -⟩ := seed_err ⟨hv, hw⟩ (by
+      have : (1 : ℝ) / 2 ^ 16 + 1 / 2 ^ 52 ≤ 1 / 2 ^ 15 := by norm_num
+      linarith)
+    (le_trans (by linarith : fval x.hi ≤ 1) (one_le_pow₀ (by norm_num : (1 : ℝ) ≤ 2)))
+  have hAround : Around y (1 / 2 ^ 30) (1 / 2 ^ 100) (2 ^ 18) := by
+    intro z hz hzy
+    obtain ⟨z1, z2⟩ := abs_le.1 hzy
+    have hR : (1 : ℝ) / 2 ^ 30 ≤ 1 / 100 := by norm_num
+    have hzneg : val z ≤ -(7 / 10) := by linarith
+    obtain ⟨-, ht⟩ := em1_any hz (by linarith) (by linarith) (by
+      rw [abs_of_neg (by linarith)]
+      have : (1 : ℝ) / 2 ^ 950 ≤ 1 / 2 ^ 1 :=
+        one_div_le_one_div_of_le (by norm_num) (pow_le_pow_right₀ (by norm_num) (by norm_num))
+      linarith)
+    refine ⟨ht (Or.inl hzneg), g_neg ?_⟩
+    -- e^z = (1 + v)·e^(z − y) ≥ 2^-15·(1 − 2^-30)
+    have e1 : Real.exp (val z) = (1 + val x) * Real.exp (val z - y) := by
+      rw [hydef, ← Real.exp_log ha, ← Real.exp_add, Real.exp_log ha]; congr 1; ring
+    rw [e1]
+    have h2 := Real.add_one_le_exp (val z - y)
+    have h3 : (1 : ℝ) / 2 ^ 15 * (1 - 1 / 2 ^ 30) ≤ (1 + val x) * Real.exp (val z - y) :=
+      mul_le_mul ha15 (by linarith) (by norm_num) ha.le
+    linarith [show (1 : ℝ) / 2 ^ 17 ≤ 1 / 2 ^ 15 * (1 - 1 / 2 ^ 30) by norm_num]
+  set κ := (1 : ℝ) / 2 ^ 100 * 2 ^ 18 * (1 + 1 / 2 ^ 18) with hκ
+  have hκ0 : 0 ≤ κ := by rw [hκ]; positivity
+  obtain ⟨m1, m2⟩ := two_step_numeric (Y := |y|) (η0 := 1 / 2 ^ 32 + 1 / 2 ^ 36) (κ := κ)
+    (K := κ) (abs_nonneg _) (by rw [hYabs]; linarith) (by positivity) (by norm_num) hκ0 le_rfl
+    (by rw [hκ]; norm_num)
+  obtain ⟨r1, r2⟩ := ln1p_two_steps (v := x) (η0 := 1 / 2 ^ 32 + 1 / 2 ^ 36) (R := 1 / 2 ^ 30) (dM := 1 / 2 ^ 100)
+    (G := 2 ^ 18) ⟨hv, hw⟩ (by linarith [show (1 : ℝ) / 2 ^ 16 ≤ 1 / 2 ^ 15 by norm_num])
+    (le_trans (by linarith : val x ≤ 1) (one_le_pow₀ (by norm_num : (1 : ℝ) ≤ 2))) hVneg.ne
+    (by norm_num) (by positivity) (by positivity) (by norm_num) ⟨sx, s1⟩ (by norm_num) hAround m1
+  refine ⟨r1.1, le_trans r2 (le_trans m2 ?_)⟩
+  rw [hYabs, hκ]
+  have c1 : (10002 : ℝ) / 10000 * (1 / 2 ^ 100 * 2 ^ 18 * (1 + 1 / 2 ^ 18)) + 1 / 2 ^ 118 + 4 / 2 ^ 106 * 11
+      ≤ 7131 / 10000 / 2 ^ 80 := by norm_num
+  have c2 : (7131 : ℝ) / 10000 / 2 ^ 80 ≤ -y / 2 ^ 80 := div_le_div_of_nonneg_right (by linarith) (by positivity)
+  have c3 : (4 : ℝ) / 2 ^ 106 * (-y) ≤ 4 / 2 ^ 106 * 11 := mul_le_mul_of_nonneg_left (by linarith) (by positivity)
+  linarith
+
+
+/-! ### 8. panic-freedom of `ln_1p`: the intermediate quotient is a valid pair -/
+
+/-- the first Newton correction is a valid pair -/
+theorem first_quotient {v : TwoFloat} {η0 R dM G : ℝ} (hv : VW v)
+    (hv1 : 1 / 2 ^ 16 ≤ 1 + val v) (hv2 : val v ≤ 2 ^ 961)
+    (hR : R ≤ 1 / 2 ^ 20) (hdM : 0 ≤ dM) (hG0 : 0 ≤ G) (hκ : dM * G ≤ 1 / 2 ^ 40)
+    (hseed : VW (convert.impl_From_f64_for_TwoFloat.from (Libm.log1p v.hi)) ∧
+      |val (convert.impl_From_f64_for_TwoFloat.from (Libm.log1p v.hi)) - Real.log (1 + val v)| ≤ η0)
+    (hη : η0 ≤ R) (H : Around (Real.log (1 + val v)) R dM G) :
+    VW (corr1p v (convert.impl_From_f64_for_TwoFloat.from (Libm.log1p v.hi))) := by
+  obtain ⟨hx0, he0⟩ := hseed
+  obtain ⟨hE, hGx⟩ := H _ hx0 (le_trans he0 hη)
+  exact (ln1p_step hv hx0 hv1 hv2 (le_trans he0 (le_trans hη hR)) hdM hG0 hGx hκ hE).1
+
+/-- panic-freedom from the validity of the first correction (`C15p.ln_1p_pf_partial`) -/
+theorem pf_of_quotient (x : TwoFloat) (hw : x.WF)
+    (hq : VW (corr1p x (convert.impl_From_f64_for_TwoFloat.from (Libm.log1p x.hi)))) :
+    TwoFloat.ln_1p.pf x = true :=
+  C15p.ln_1p_pf_partial x hw (Or.inl hq.1)
+
+/-- the first correction for `|x| ≥ 2^-8` -/
+theorem quotient_nonsmall (x : TwoFloat) (hv : x.Valid) (hw : x.WF)
+    (h8 : 1 / 2 ^ 8 ≤ |val x|) (h1 : -1 + 1 / 2 ^ 15 ≤ val x) (h2 : fval x.hi ≤ 2 ^ 960) :
+    VW (corr1p x (convert.impl_From_f64_for_TwoFloat.from (Libm.log1p x.hi))) := by
+  have h15 : (0 : ℝ) < 1 / 2 ^ 15 := by positivity
+  have ha : 0 < 1 + val x := by linarith
+  have ha15 : 1 / 2 ^ 15 ≤ 1 + val x := by linarith
+  have hn := hi_near hv
+  obtain ⟨hH1, hH2⟩ := hi_vs_val hv
+  have hVabs : |val x| ≤ 2 ^ 961 := by
+    have hHge : -2 ≤ fval x.hi := by
+      have hd := (abs_le.1 hn).1
+      rcases le_or_gt (val x) 0 with hs | hs
+      · rw [abs_of_nonpos hs] at hd
+        have : -val x / 2 ^ 52 ≤ 1 := by
+          rw [div_le_iff₀ (by positivity)]; linarith [show (1 : ℝ) ≤ 1 * 2 ^ 52 by norm_num]
+        linarith
+      · rw [abs_of_pos hs] at hd
+        have : val x / 2 ^ 52 ≤ val x := div_le_self hs.le (by norm_num)
+        linarith
+    have h960 : (2 : ℝ) ≤ 2 ^ 960 := by
+      calc (2 : ℝ) = 2 ^ 1 := by norm_num
+        _ ≤ 2 ^ 960 := pow_le_pow_right₀ (by norm_num) (by norm_num)
+    have hH : |fval x.hi| ≤ 2 ^ 960 := abs_le.2 ⟨by linarith, h2⟩
+    have : |fval x.hi| * (1 + 1 / 2 ^ 53) ≤ 2 ^ 960 * 2 := mul_le_mul hH (by norm_num) (by norm_num) (by positivity)
+    have e : (2 : ℝ) ^ 961 = 2 ^ 960 * 2 := by rw [pow_succ]
+    linarith
+  have hV961 : val x ≤ 2 ^ 961 := (abs_le.1 hVabs).2
+  have hHlo : 1 / 2 ^ 16 ≤ 1 + fval x.hi := by
+    have hd := (abs_le.1 hn).1
+    by_cases hs : val x ≤ 0
+    · have : |val x| ≤ 1 := by rw [abs_of_nonpos hs]; linarith
+      have : |val x| / 2 ^ 52 ≤ 1 / 2 ^ 52 := div_le_div_of_nonneg_right this (by positivity)
+      linarith [show (1 : ℝ) / 2 ^ 16 + 1 / 2 ^ 52 ≤ 1 / 2 ^ 15 by norm_num]
+    · have hp : 0 < val x := not_le.1 hs
+      rw [abs_of_pos hp] at hd
+      have : val x / 2 ^ 52 ≤ val x := div_le_self hp.le (by norm_num)
+      linarith [show (1 : ℝ) / 2 ^ 16 ≤ 1 by norm_num]
+  obtain ⟨sx, s1, -⟩ := seed_err ⟨hv, hw⟩ hHlo (le_trans h2 (pow_le_pow_right₀ (by norm_num) (by norm_num)))
+  have hy668 : Real.log (1 + val x) ≤ 668 := log_le_668 ha (by
+    have e : (2 : ℝ) ^ 962 = 2 ^ 961 * 2 := by rw [pow_succ]
+    have : (1 : ℝ) ≤ 2 ^ 961 := one_le_pow₀ (by norm_num)
+    linarith)
+  have hy11 : -11 ≤ Real.log (1 + val x) := by
+    have d := Real.log_le_log (by positivity) ha15
+    rw [one_div, Real.log_inv, Real.log_pow] at d
+    have l2 := Real.log_two_lt_d9
+    push_cast at d
+    linarith
+  set y := Real.log (1 + val x) with hydef
+  have hR : (1 : ℝ) / 2 ^ 30 ≤ 1 / 100 := by norm_num
+  have t950 : ∀ t : ℝ, 1 / 2 ^ 20 ≤ t → (1 : ℝ) / 2 ^ 950 ≤ t := fun t ht =>
+    le_trans (one_div_le_one_div_of_le (by positivity) (pow_le_pow_right₀ (by norm_num) (by norm_num))) ht
+  rcases le_or_gt y (-(9 / 10)) with hA | hA
+  · -- far negative: exp_m1 = exp − 1, accuracy 2^-100
+    have hAround : Around y (1 / 2 ^ 30) (1 / 2 ^ 100) (2 ^ 18) := by
+      intro z hz hzy
+      obtain ⟨z1, z2⟩ := abs_le.1 hzy
+      have hzneg : val z ≤ -(7 / 10) := by linarith
+      obtain ⟨-, ht⟩ := em1_any hz (by linarith) (by linarith) (t950 _ (by
+        rw [abs_of_neg (by linarith)]; linarith [show (1 : ℝ) / 2 ^ 20 ≤ 7 / 10 by norm_num]))
+      refine ⟨ht (Or.inl hzneg), g_neg ?_⟩
+      have e1 : Real.exp (val z) = (1 + val x) * Real.exp (val z - y) := by
+        rw [hydef, ← Real.exp_log ha, ← Real.exp_add, Real.exp_log ha]; congr 1; ring
+      rw [e1]
+      have h2' := Real.add_one_le_exp (val z - y)
+      have h3 : (1 : ℝ) / 2 ^ 15 * (1 - 1 / 2 ^ 30) ≤ (1 + val x) * Real.exp (val z - y) :=
+        mul_le_mul ha15 (by linarith) (by norm_num) ha.le
+      linarith [show (1 : ℝ) / 2 ^ 17 ≤ 1 / 2 ^ 15 * (1 - 1 / 2 ^ 30) by norm_num]
+    exact first_quotient ⟨hv, hw⟩ (by linarith [show (1 : ℝ) / 2 ^ 16 ≤ 1 / 2 ^ 15 by norm_num]) hV961
+      (by norm_num) (by positivity) (by positivity) (by norm_num) ⟨sx, s1⟩ (by norm_num) hAround
+  · rcases le_or_gt (9 / 10) y with hC | hC
+    · -- far positive
+      have hAround : Around y (1 / 2 ^ 30) (1 / 2 ^ 100) 1 := by
+        intro z hz hzy
+        obtain ⟨z1, z2⟩ := abs_le.1 hzy
+        have hzpos : 41 / 100 ≤ val z := by linarith
+        obtain ⟨-, ht⟩ := em1_any hz (by linarith) (by linarith) (t950 _ (by
+          rw [abs_of_pos (by linarith)]; linarith [show (1 : ℝ) / 2 ^ 20 ≤ 41 / 100 by norm_num]))
+        refine ⟨ht (Or.inr hzpos), ?_⟩
+        have := Real.add_one_le_exp (val z)
+        have hp := Real.exp_pos (val z)
+        rw [abs_of_nonneg (by linarith), one_mul]; linarith
+      exact first_quotient ⟨hv, hw⟩ (by linarith [show (1 : ℝ) / 2 ^ 16 ≤ 1 / 2 ^ 15 by norm_num]) hV961
+        (by norm_num) (by positivity) (by norm_num) (by norm_num) ⟨sx, s1⟩ (by norm_num) hAround
+    · -- |y| < 0.9 and |y| ≥ 2^-10
+      have hy10 : 1 / 2 ^ 10 ≤ |y| := by
+        rcases le_or_gt (val x) 0 with hs | hs
+        · have hyV : y ≤ val x := by
+            have := Real.log_le_sub_one_of_pos ha; linarith
+          rw [abs_of_nonpos hs] at h8
+          rw [abs_of_nonpos (by linarith)]
+          linarith [show (1 : ℝ) / 2 ^ 10 ≤ 1 / 2 ^ 8 by norm_num]
+        · rw [abs_of_pos hs] at h8
+          have hexp : 1 + val x < 3 := by
+            have h3 : 1 + val x = Real.exp y := by rw [hydef, Real.exp_log ha]
+            rw [h3]
+            have := Real.exp_lt_exp.2 (show y < 1 by linarith)
+            linarith [Real.exp_one_lt_d9]
+          have := Real.one_sub_inv_le_log_of_pos ha
+          have e : 1 - (1 + val x)⁻¹ = val x / (1 + val x) := by field_simp; ring
+          rw [e] at this
+          have hq : 1 / 2 ^ 10 ≤ val x / (1 + val x) := by
+            rw [le_div_iff₀ ha]
+            have : (1 : ℝ) / 2 ^ 8 = 1 / 256 := by norm_num
+            nlinarith
+          have hy0 : 0 ≤ y := by linarith [show (0 : ℝ) ≤ 1 / 2 ^ 10 by positivity]
+          rw [abs_of_nonneg hy0]; linarith
+      have hAround : Around y (1 / 2 ^ 30) (1 / 2 ^ 45) 2 := by
+        intro z hz hzy
+        obtain ⟨z1, z2⟩ := abs_le.1 hzy
+        have hzabs : |val z| ≤ 1 := by rw [abs_le]; constructor <;> linarith
+        have hzlo : 1 / 2 ^ 20 ≤ |val z| := by
+          have := abs_sub_abs_le_abs_sub y (val z)
+          rw [abs_sub_comm] at this
+          linarith [show (1 : ℝ) / 2 ^ 10 - 1 / 2 ^ 30 ≥ 1 / 2 ^ 20 by norm_num]
+        obtain ⟨ht, -⟩ := em1_any hz (by linarith) (by linarith) (t950 _ hzlo)
+        refine ⟨ht, le_trans (g_abs hzabs) ?_⟩
+        apply mul_le_mul_of_nonneg_right _ (Real.exp_pos _).le
+        have h0 := abs_nonneg (val z)
+        nlinarith
+      exact first_quotient ⟨hv, hw⟩ (by linarith [show (1 : ℝ) / 2 ^ 16 ≤ 1 / 2 ^ 15 by norm_num]) hV961
+        (by norm_num) (by positivity) (by norm_num) (by norm_num) ⟨sx, s1⟩ (by norm_num) hAround
+
+/-- **`ln_1p` never panics** on a valid `x ≥ −1 + 2^-15` with high word at most `2^960` and `x = 0` or `|x| ≥ 2^-948`:
+the hypothesis of `C15p.ln_1p_pf_partial` (validity of the intermediate quotient) is discharged -/
+theorem ln_1p_pf (x : TwoFloat) (hv : x.Valid) (hw : x.WF)
+    (h1 : -1 + 1 / 2 ^ 15 ≤ val x) (h2 : fval x.hi ≤ 2 ^ 960) (h0 : val x = 0 ∨ 1 / 2 ^ 948 ≤ |val x|) :
+    TwoFloat.ln_1p.pf x = true := by
+  rcases h0 with h0 | h0
+  · -- x = 0: the first branch
+    have hU : (0 : ℝ) < 2 ^ 1074 := by positivity
+    have hV : x.V = 0 := by
+      have : rv x = 0 := h0
+      unfold rv at this
+      rw [div_eq_zero_iff] at this
+      rcases this with h | h
+      · exact_mod_cast h
+      · exact absurd h hU.ne'
+    have hhi : x.hi.toInt = 0 := by rw [hv.hi_toInt, hV]; exact rnI_eq_zero_iff.2 rfl
+    have hlo : x.lo.toInt = 0 := by
+      have : x.V = x.hi.toInt + x.lo.toInt := rfl
+      omega
+    have heq : base.impl_PartialEq_f64_for_TwoFloat.eq x (f64lit 0x0000000000000000) = true := by
+      unfold base.impl_PartialEq_f64_for_TwoFloat.eq
+      rw [Bool.and_eq_true, req_eq, req_eq, Ident.f64lit_zero, eq_iff_toInt hv.1 rfl, eq_iff_toInt hv.2.1 rfl, toInt_zero]
+      exact ⟨hhi, hlo⟩
+    unfold TwoFloat.ln_1p.pf
+    simp only [heq, if_true]
+  · rcases le_or_gt |val x| (1 / 2 ^ 8) with h8 | h8
+    · obtain ⟨η0, R, e0, e1, e2, eR1, eR2, eR3, e4, hseed, hAround, hYhi, hY1⟩ := small_setup x hv hw h0 h8
+      obtain ⟨v1, v2⟩ := abs_le.1 h8
+      have hR0 : 0 ≤ R := le_trans e0 e2
+      have hY0 := abs_nonneg (Real.log (1 + val x))
+      refine pf_of_quotient x hw (first_quotient (dM := 54 / 2 ^ 106) ⟨hv, hw⟩
+        (by linarith [show (1 : ℝ) / 2 ^ 16 ≤ 1 - 1 / 2 ^ 8 by norm_num])
+        (le_trans v2 (le_trans (by norm_num) (one_le_pow₀ (by norm_num : (1 : ℝ) ≤ 2)))) eR3 (by positivity)
+        (by positivity) ?_ hseed e2 hAround)
+      have : (|Real.log (1 + val x)| + R) * (1 + 1 / 128) ≤ 1 * 2 :=
+        mul_le_mul (by linarith) (by norm_num) (by norm_num) (by norm_num)
+      have := mul_le_mul_of_nonneg_left this (by positivity : (0 : ℝ) ≤ 54 / 2 ^ 106)
+      linarith [show (54 : ℝ) / 2 ^ 106 * (1 * 2) ≤ 1 / 2 ^ 40 by norm_num]
+    · exact pf_of_quotient x hw (quotient_nonsmall x hv hw h8.le h1 h2)
+
+
+/-! ### 8b. the regime `−0.51 ≤ x ≤ −2^-8` with the sharper Taylor-branch accuracy of `exp_m1`
+
+`C14f.exp_m1_bound_mid` rounds the accuracy of the Taylor branch to `2^-45`; its proof gives `2^-46 + 100u²` for negative
+arguments (truncation `2^-47`, roundings `42u²`, `exp` `37u²`, product `7u²`).  The statement below is that proof with the
+last constant kept. -/
+
+theorem em1_mid_neg_sharp (x : TwoFloat) (hv : x.Valid) (hw : x.WF)
+    (hsw : ¬ (x.V < (C14f.negf consts.LN_2).V ∨ explog.LN_FRAC_3_2.V < x.V)) (hlo : 1 / 2 ^ 9 ≤ |val x|)
+    (hneg : x.V < 0) :
+    (TwoFloat.exp_m1 x).Valid ∧
+    |val (TwoFloat.exp_m1 x) - (Real.exp (val x) - 1)| ≤ (1 / 2 ^ 46 + 100 / 2 ^ 106) * |Real.exp (val x) - 1| := by
+  have hU : (0 : ℝ) < 2 ^ 1074 := by positivity
+  change 1 / 2 ^ 9 ≤ |rv x| at hlo
+  show (TwoFloat.exp_m1 x).Valid ∧
+    |rv (TwoFloat.exp_m1 x) - (Real.exp (rv x) - 1)| ≤ (1 / 2 ^ 46 + 100 / 2 ^ 106) * |Real.exp (rv x) - 1|
+  have hswi : ¬ (((ROrd.isLt (base.impl_PartialOrd_TwoFloat_for_TwoFloat.partial_cmp x (C14f.negf consts.LN_2))) ||
+      (ROrd.isGt (base.impl_PartialOrd_TwoFloat_for_TwoFloat.partial_cmp x explog.LN_FRAC_3_2))) = true) := by
+    rw [C14f.exp_m1_switch x hv hw]; exact hsw
+  -- |x| ≤ 0.7
+  have hx7 : |rv x| ≤ 7 / 10 := by
+    have h1 : -(7 * 2 ^ 1074) ≤ 10 * x.V := by have := C14f.negLN2_ge; omega
+    have h2 : 10 * x.V ≤ 7 * 2 ^ 1074 := by have := C14f.LN32_le; omega
+    have h1' : -((7 : ℝ) * 2 ^ 1074) ≤ 10 * (x.V : ℝ) := by exact_mod_cast h1
+    have h2' : 10 * (x.V : ℝ) ≤ 7 * 2 ^ 1074 := by exact_mod_cast h2
+    unfold rv
+    rw [abs_le]
+    constructor
+    · rw [le_div_iff₀ hU]; linarith
+    · rw [div_le_iff₀ hU]; linarith
+  unfold TwoFloat.exp_m1
+  rw [if_neg hswi]
+  dsimp only
+  rw [polyFold_eq]
+  obtain ⟨avw, harv⟩ := abs_rv' ⟨hv, hw⟩
+  obtain ⟨c1, c2, -⟩ := abs_cases hv
+  · -- x < 0
+    rw [if_pos ((C14f.lt_zero_switch x hv).2 hneg)]
+    have hxneg : rv x < 0 := div_neg_of_neg_of_pos (by exact_mod_cast hneg) hU
+    have hxabs : |rv x| = -rv x := abs_of_neg hxneg
+    set t := rv (TwoFloat.abs x) with htdef
+    have ht : t = -rv x := by rw [harv, hxabs]
+    have ht0 : 0 < t := by rw [ht]; linarith
+    have ht7 : t ≤ 7 / 10 := by rw [ht, ← hxabs]; exact hx7
+    have hlo' : 1 / 2 ^ 9 ≤ t := by rw [ht, ← hxabs]; exact hlo
+    obtain ⟨wvw, hw1⟩ := expm1_kernel_wide avw ⟨hv, hw⟩ (by rw [hxabs, ← ht]) ht7 hlo'
+    generalize arithmetic.impl_Mul_TwoFloat_for_TwoFloat.mul x (arithmetic.impl_Add_f64_for_TwoFloat.add
+      (arithmetic.impl_Mul_TwoFloat_for_TwoFloat.mul (TwoFloat.abs x) (hp (TwoFloat.abs x) 12))
+      (f64lit 0x3ff0000000000000)) = w at *
+    rw [← htdef] at hw1
+    obtain ⟨tay, tge⟩ := taylor_wide ht0 ht7
+    set A := Real.exp t - 1 with hA
+    have hA0 : 0 < A := by linarith
+    have hwA : |(-rv w) - A| ≤ 1 / 2 ^ 46 * A := by
+      have e : rv x * (t * PR t 12 + 1) = -(t * (t * PR t 12 + 1)) := by rw [ht]; ring
+      rw [e, hxabs, ← ht] at hw1
+      have h1 := abs_add_le (-(rv w - -(t * (t * PR t 12 + 1)))) (t * (t * PR t 12 + 1) - A)
+      rw [abs_neg, show -(rv w - -(t * (t * PR t 12 + 1))) + (t * (t * PR t 12 + 1) - A) = -rv w - A by ring] at h1
+      have h2 : (42 : ℝ) / 2 ^ 106 * t ≤ 42 / 2 ^ 106 * A := mul_le_mul_of_nonneg_left tge (by positivity)
+      have e2 : (42 : ℝ) / 2 ^ 106 * A + 1 / 2 ^ 47 * A ≤ 1 / 2 ^ 46 * A := by
+        rw [← add_mul]; exact mul_le_mul_of_nonneg_right (by norm_num) hA0.le
+      linarith
+    obtain ⟨Evw, hE⟩ := exp_bound_37 x hv hw (by linarith [(abs_le.1 hx7).1]) (by linarith)
+    have hB0 := Real.exp_pos (rv x)
+    have hBr : 3 / 10 ≤ Real.exp (rv x) ∧ Real.exp (rv x) ≤ 1 := by
+      constructor
+      · have := Real.add_one_le_exp (rv x); linarith [(abs_le.1 hx7).1]
+      · rw [← Real.exp_zero]; exact Real.exp_le_exp.2 hxneg.le
+    have hAle : A ≤ 2 * t := by
+      have := Real.abs_exp_sub_one_le (x := t) (by rw [abs_of_pos ht0]; linarith)
+      rw [abs_of_pos ht0] at this
+      exact (abs_le.1 this).2
+    have hwabs : 99 / 100 * A ≤ |rv w| ∧ |rv w| ≤ 101 / 100 * A := by
+      have h3 := abs_sub_abs_le_abs_sub (-rv w) A
+      have h4 := abs_sub_abs_le_abs_sub A (-rv w)
+      rw [abs_sub_comm A] at h4
+      rw [abs_neg, abs_of_pos hA0] at h3 h4
+      have : (1 : ℝ) / 2 ^ 46 * A ≤ 1 / 100 * A := mul_le_mul_of_nonneg_right (by norm_num) hA0.le
+      constructor <;> linarith
+    have hEabs : 29 / 100 ≤ |rv (TwoFloat.exp x)| ∧ |rv (TwoFloat.exp x)| ≤ 101 / 100 := by
+      have h3 := abs_sub_abs_le_abs_sub (rv (TwoFloat.exp x)) (Real.exp (rv x))
+      have h4 := abs_sub_abs_le_abs_sub (Real.exp (rv x)) (rv (TwoFloat.exp x))
+      rw [abs_sub_comm (Real.exp (rv x))] at h4
+      rw [abs_of_pos hB0] at h3 h4
+      have : (37 : ℝ) / 2 ^ 106 * Real.exp (rv x) ≤ 1 / 100 := by
+        have : (37 : ℝ) / 2 ^ 106 ≤ 1 / 100 := by norm_num
+        nlinarith [hBr.2]
+      constructor <;> linarith [hBr.1, hBr.2]
+    have hp1 : |rv w * rv (TwoFloat.exp x)| ≤ 2 ^ 1019 := by
+      rw [abs_mul]
+      calc |rv w| * |rv (TwoFloat.exp x)| ≤ (101 / 100 * A) * (101 / 100) :=
+            mul_le_mul hwabs.2 hEabs.2 (abs_nonneg _) (by positivity)
+        _ ≤ (101 / 100 * (2 * (7 / 10))) * (101 / 100) := by
+            apply mul_le_mul_of_nonneg_right _ (by norm_num)
+            apply mul_le_mul_of_nonneg_left _ (by norm_num)
+            linarith
+        _ ≤ 2 ^ 1019 := by norm_num
+    have hp0 : 1 / 2 ^ 957 ≤ |rv w * rv (TwoFloat.exp x)| := by
+      rw [abs_mul]
+      calc (1 : ℝ) / 2 ^ 957 ≤ (99 / 100 * (1 / 2 ^ 9)) * (29 / 100) := by norm_num
+        _ ≤ (99 / 100 * A) * (29 / 100) := by
+            apply mul_le_mul_of_nonneg_right _ (by norm_num)
+            apply mul_le_mul_of_nonneg_left _ (by norm_num)
+            linarith
+        _ ≤ |rv w| * |rv (TwoFloat.exp x)| := mul_le_mul hwabs.1 hEabs.1 (by norm_num) (abs_nonneg _)
+    obtain ⟨resvw, hres⟩ := mul_rv_rel wvw Evw hp0 hp1
+    refine ⟨resvw.1, ?_⟩
+    generalize rv (arithmetic.impl_Mul_TwoFloat_for_TwoFloat.mul w (TwoFloat.exp x)) = res at *
+    have hres' : |(-res) - (-rv w) * rv (TwoFloat.exp x)| ≤ 7 / 2 ^ 106 * |(-rv w) * rv (TwoFloat.exp x)| := by
+      rw [show -res - -rv w * rv (TwoFloat.exp x) = -(res - rv w * rv (TwoFloat.exp x)) by ring, abs_neg,
+        neg_mul, abs_neg]
+      exact hres
+    have core := prod_rel_gen hA0 hB0 hwA hE hres' (by positivity) (by positivity) (ε := 1 / 2 ^ 46 + 100 / 2 ^ 106) (by norm_num)
+    have eAB : A * Real.exp (rv x) = -(Real.exp (rv x) - 1) := by
+      have : Real.exp t * Real.exp (rv x) = 1 := by rw [← Real.exp_add, ht]; simp
+      rw [hA, sub_mul, this]; ring
+    rw [eAB] at core
+    rw [show -res - -(Real.exp (rv x) - 1) = -(res - (Real.exp (rv x) - 1)) by ring, abs_neg] at core
+    have hneg1 : Real.exp (rv x) - 1 < 0 := by
+      have : Real.exp (rv x) < 1 := by rw [← Real.exp_zero]; exact Real.exp_lt_exp.2 hxneg
+      linarith
+    rw [abs_of_neg hneg1]
+    exact core
+
+/-- `exp_m1` on `[−600, −2^-9]`: relative error `2^-46 + 100u²` in either branch -/
+theorem em1_neg46 {z : TwoFloat} (hz : VW z) (h1 : -600 ≤ val z) (h2 : val z ≤ -(1 / 2 ^ 9)) :
+    Em1 z (1 / 2 ^ 46 + 100 / 2 ^ 106) := by
+  have hU : (0 : ℝ) < 2 ^ 1074 := by positivity
+  have hzneg : val z < 0 := lt_of_le_of_lt h2 (by norm_num)
+  have hVneg : z.V < 0 := by
+    have : rv z < 0 := hzneg
+    unfold rv at this
+    have := (div_neg_iff_of_pos_right hU).1 this
+    exact_mod_cast this
+  by_cases hsw : z.V < (C14f.negf consts.LN_2).V
+  · obtain ⟨a, b⟩ := C14f.exp_m1_bound_outer_neg_partial z hz.1 hz.2 h1 hsw
+    refine ⟨⟨a, exp_m1_WF z⟩, le_trans b ?_⟩
+    rw [div_eq_mul_one_div, mul_comm]
+    exact mul_le_mul_of_nonneg_right (by norm_num) (abs_nonneg _)
+  · have hsw' : ¬ (z.V < (C14f.negf consts.LN_2).V ∨ explog.LN_FRAC_3_2.V < z.V) := by
+      rintro (h | h)
+      · exact hsw h
+      · have := C14f.LN32_facts.2.2
+        have hp : (0 : ℤ) < 2 ^ 1072 := by positivity
+        omega
+    obtain ⟨a, b⟩ := em1_mid_neg_sharp z hz.1 hz.2 hsw' (by
+      rw [abs_of_neg hzneg]; linarith) hVneg
+    exact ⟨⟨a, exp_m1_WF z⟩, b⟩
+
+/-! ### 9. COUNTEREXAMPLE: the `2^-45` floor of `ln_1p` fails close to `−1`
+
+The property quantifies over all valid `−1 < x ≤ 2^960`.  For `x` close to `−1` the seed `libm::log1p(hi)` ignores the
+low word, which moves `1 + x` by a relative `|lo|/(1 + hi)` — up to `1/2` when `1 + hi = 2^-53` — and two Newton steps
+do not recover from a seed error of that size (`e ↦ e²/2`): by evaluation of the model on random arguments the relative
+error exceeds `2^-45` as soon as `1 + x ≲ 2^-45.8`, and reaches `2^-11` at the argument below.  (The bound
+`ln_1p_bound_near_minus_one` covers `1 + x ≥ 2^-15`.) -/
+
+/-- `x = (−1 + 2^-53, −2^-54 + 2^-106)`, i.e. `1 + x = 2^-54·(1 + 2^-52)` -/
+def cx : TwoFloat := ⟨f64lit 0xbfefffffffffffff, f64lit 0xbc8ffffffffffffe⟩
+
+theorem cx_valid : cx.Valid ∧ cx.WF ∧ cx.V = -(2 ^ 1074) + 2 ^ 1020 + 2 ^ 968 := by decide +kernel
+
+/-- the model's result, by kernel evaluation: the pair `(0xc042b4cacf79b3a0, 0x3ce801a54a3da87b)`, about `−37.41244` -/
+theorem cx_result : TwoFloat.ln_1p cx = ⟨f64lit 13853834186993876960, f64lit 4388756248156395131⟩ ∧
+    (TwoFloat.ln_1p cx).Valid ∧ -(374125 * 2 ^ 1074) ≤ 10000 * (TwoFloat.ln_1p cx).V := by decide +kernel
+
+/-- **the floor is violated**: `cx` is a valid pair with `−1 < cx < 0`, `|cx| ≥ 2^-1000`, and the relative error of
+`ln_1p(cx)` against `ln(1 + cx) ≈ −37.42995` exceeds `2^-12` (the property asks for `2^-45`) -/
+theorem ln_1p_floor_violated :
+    cx.Valid ∧ cx.WF ∧ -1 < val cx ∧ val cx < 0 ∧ 1 / 2 ^ 1000 ≤ |val cx| ∧
+    |Real.log (1 + val cx)| / 2 ^ 12 < |val (TwoFloat.ln_1p cx) - Real.log (1 + val cx)| ∧
+    ¬ (|val (TwoFloat.ln_1p cx) - Real.log (1 + val cx)| ≤ |Real.log (1 + val cx)| / 2 ^ 45) := by
+  obtain ⟨cv, cw, cV⟩ := cx_valid
+  obtain ⟨-, -, cR⟩ := cx_result
+  have hU : (0 : ℝ) < 2 ^ 1074 := by positivity
+  have hT : (0 : ℝ) < 2 ^ 968 := by positivity
+  have e1074 : (2 : ℝ) ^ 1074 = 2 ^ 968 * 2 ^ 106 := by rw [← pow_add]
+  have e1020 : (2 : ℝ) ^ 1020 = 2 ^ 968 * 2 ^ 52 := by rw [← pow_add]
+  have hVr : (cx.V : ℝ) = -(2 ^ 1074) + 2 ^ 1020 + 2 ^ 968 := by rw [cV]; push_cast; ring
+  have hval : val cx = -1 + 1 / 2 ^ 54 + 1 / 2 ^ 106 := by
+    show rv cx = _
+    unfold rv
+    rw [hVr, e1074, e1020]
+    generalize (2 : ℝ) ^ 968 = T at *
+    field_simp
+  have h1p : 1 + val cx = 1 / 2 ^ 54 * (1 + 1 / 2 ^ 52) := by rw [hval]; norm_num
+  have hlog : Real.log (1 + val cx) = -(54 * Real.log 2) + Real.log (1 + 1 / 2 ^ 52) := by
+    rw [h1p, Real.log_mul (by positivity) (by positivity), one_div, Real.log_inv, Real.log_pow]
+    push_cast; ring
+  have l1 := Real.log_two_gt_d9
+  have l2 := Real.log_two_lt_d9
+  have hsm1 : Real.log (1 + 1 / 2 ^ 52) ≤ 1 / 2 ^ 52 := by
+    have := Real.log_le_sub_one_of_pos (show (0 : ℝ) < 1 + 1 / 2 ^ 52 by positivity)
+    linarith
+  have hsm0 : 0 ≤ Real.log (1 + 1 / 2 ^ 52) := Real.log_nonneg (by norm_num)
+  -- the model's value
+  have hR : -(374125 / 10000) ≤ val (TwoFloat.ln_1p cx) := by
+    show -(374125 / 10000) ≤ rv (TwoFloat.ln_1p cx)
+    unfold rv
+    rw [le_div_iff₀ hU]
+    have : (-(374125 * 2 ^ 1074) : ℝ) ≤ 10000 * ((TwoFloat.ln_1p cx).V : ℝ) := by exact_mod_cast cR
+    linarith
+  have hLhi : Real.log (1 + val cx) ≤ -(374299 / 10000) := by
+    rw [hlog]
+    have : (1 : ℝ) / 2 ^ 52 ≤ 1 / 10000000 := by norm_num
+    linarith
+  have hLlo : -(37430 / 1000) ≤ Real.log (1 + val cx) := by rw [hlog]; linarith
+  have hLabs : |Real.log (1 + val cx)| ≤ 37430 / 1000 := by
+    rw [abs_of_neg (by linarith)]; linarith
+  have hdiff : 174 / 10000 ≤ val (TwoFloat.ln_1p cx) - Real.log (1 + val cx) := by linarith
+  have key : |Real.log (1 + val cx)| / 2 ^ 12 < |val (TwoFloat.ln_1p cx) - Real.log (1 + val cx)| := by
+    rw [abs_of_pos (by linarith : (0 : ℝ) < val (TwoFloat.ln_1p cx) - Real.log (1 + val cx))]
+    have : |Real.log (1 + val cx)| / 2 ^ 12 ≤ 37430 / 1000 / 2 ^ 12 := div_le_div_of_nonneg_right hLabs (by positivity)
+    have : (37430 : ℝ) / 1000 / 2 ^ 12 < 174 / 10000 := by norm_num
+    linarith
+  refine ⟨cv, cw, by rw [hval]; norm_num, by rw [hval]; norm_num, ?_, key, ?_⟩
+  · rw [hval, abs_of_neg (by norm_num)]
+    have : (1 : ℝ) / 2 ^ 1000 ≤ 1 / 2 ^ 1 :=
+      one_div_le_one_div_of_le (by norm_num) (pow_le_pow_right₀ (by norm_num) (by norm_num))
+    have h2 : (1 : ℝ) / 2 ^ 1 ≤ -(-1 + 1 / 2 ^ 54 + 1 / 2 ^ 106) := by norm_num
+    linarith
+  · intro hc
+    have h0 := abs_nonneg (Real.log (1 + val cx))
+    have : |Real.log (1 + val cx)| / 2 ^ 45 ≤ |Real.log (1 + val cx)| / 2 ^ 12 :=
+      div_le_div_of_nonneg_left h0 (by positivity) (pow_le_pow_right₀ (by norm_num) (by norm_num))
+    linarith
 
 end C15n
